@@ -1,9 +1,1300 @@
+(* Proofs about ClientSync.v (the device's side of the synchronisation protocol). *)
 From Coq Require Import ZArith List Bool String Lia.
 From Coq.Strings Require Import Byte.
 From GCA Require Import Wrap Bytes Bytes_lemmas CodecSync ClientSync.
 Import ListNotations.
 Open Scope Z_scope.
+Notation length := List.length.
 
+(* ------------------------------------------------------------------ slices *)
+Lemma sub_some b lo hi : 0 <= lo -> lo <= hi -> hi <= Z.of_nat (length b) ->
+  exists x, sub b lo hi = Some x /\ length x = Z.to_nat (hi - lo).
+Proof.
+  intros H1 H2 H3. unfold sub.
+  replace ((0 <=? lo) && (lo <=? hi) && (hi <=? Z.of_nat (length b))) with true
+    by (symmetry; rewrite !andb_true_iff, !Z.leb_le; lia).
+  eexists; split; [reflexivity|]. rewrite firstn_length, skipn_length. lia.
+Qed.
+
+Lemma sub_inv b lo hi x : sub b lo hi = Some x ->
+  0 <= lo /\ lo <= hi /\ hi <= Z.of_nat (length b) /\
+  x = firstn (Z.to_nat (hi - lo)) (skipn (Z.to_nat lo) b) /\ length x = Z.to_nat (hi - lo).
+Proof.
+  unfold sub. destruct ((0 <=? lo) && (lo <=? hi) && (hi <=? Z.of_nat (length b))) eqn:E; [|discriminate].
+  rewrite !andb_true_iff, !Z.leb_le in E. intros H; injection H as <-.
+  repeat split; try lia. rewrite firstn_length, skipn_length. lia.
+Qed.
+
+Lemma idx_some b i : 0 <= i < Z.of_nat (length b) -> exists x, idx b i = Some x.
+Proof.
+  intros H. unfold idx. replace (0 <=? i) with true by (symmetry; apply Z.leb_le; lia).
+  destruct (nth_error b (Z.to_nat i)) eqn:E; [eauto|].
+  apply nth_error_None in E. lia.
+Qed.
+
+Lemma sub_eq (b a m c : bytes) lo hi : b = a ++ m ++ c -> lo = Z.of_nat (length a) ->
+  hi = lo + Z.of_nat (length m) -> sub b lo hi = Some m.
+Proof.
+  intros -> -> ->. unfold sub.
+  replace ((0 <=? Z.of_nat (length a)) && (Z.of_nat (length a) <=? Z.of_nat (length a) + Z.of_nat (length m)) &&
+           (Z.of_nat (length a) + Z.of_nat (length m) <=? Z.of_nat (length (a ++ m ++ c)))) with true
+    by (symmetry; rewrite !andb_true_iff, !Z.leb_le, !app_length; lia).
+  f_equal. rewrite Nat2Z.id.
+  replace (Z.to_nat (Z.of_nat (length a) + Z.of_nat (length m) - Z.of_nat (length a))) with (length m) by lia.
+  rewrite skipn_app_exact. apply firstn_app_exact.
+Qed.
+
+Lemma idx_eq (b a : bytes) (x : byte) (c : bytes) i : b = a ++ x :: c -> i = Z.of_nat (length a) -> idx b i = Some x.
+Proof.
+  intros -> ->. unfold idx. replace (0 <=? Z.of_nat (length a)) with true by (symmetry; apply Z.leb_le; lia).
+  rewrite Nat2Z.id. rewrite nth_error_app2 by lia. rewrite Nat.sub_diag. reflexivity.
+Qed.
+
+Lemma u16_small z : 0 <= z < 65536 -> u16 z = z.
+Proof. intros H. unfold u16. change (2^16) with 65536. apply Z.mod_small. lia. Qed.
+
+(* ------------------------------------------------------------------ the list loop *)
+Lemma le_dec_2 x : length x = 2%nat -> 0 <= le_dec x < 65536.
+Proof. intros H. pose proof (le_dec_range x) as R. rewrite H in R. change (256 ^ Z.of_nat 2) with 65536 in R. exact R. Qed.
+
+Lemma parse_servers_props : forall fuel b i e acc,
+  0 <= i -> e <= Z.of_nat (length b) ->
+  parse_servers fuel b i e acc <> SPanic /\
+  ((Z.to_nat (e - i) < fuel)%nat -> parse_servers fuel b i e acc <> SFuel) /\
+  (forall l, Forall aserver_wf acc -> parse_servers fuel b i e acc = SOk l -> Forall aserver_wf l).
+Proof.
+  induction fuel as [|f IH]; intros b i e acc Hi He.
+  - cbn. repeat split; try congruence. lia.
+  - cbn [parse_servers].
+    destruct (i <? e) eqn:Eie.
+    2:{ repeat split; try congruence. intros l Ha H. injection H as <-. apply Forall_rev. exact Ha. }
+    apply Z.ltb_lt in Eie.
+    destruct (e <? i + 34) eqn:E34.
+    { repeat split; congruence. }
+    apply Z.ltb_ge in E34.
+    destruct (sub_some b i (i + 32)) as [k [Hk Lk]]; try lia. rewrite Hk.
+    destruct (idx_some b (i + 32)) as [bn Hbn]; try lia. rewrite Hbn.
+    destruct (idx_some b (i + 33)) as [ll Hll]; try lia. rewrite Hll.
+    cbv zeta. pose proof (b2z_range ll) as RL.
+    destruct (e <? i + 34 + b2z ll + 70) eqn:E70.
+    { repeat split; congruence. }
+    apply Z.ltb_ge in E70.
+    destruct (sub_some b (i + 34) (i + 34 + b2z ll)) as [loc [Hloc Lloc]]; try lia. rewrite Hloc.
+    destruct (sub_some b (i + 34 + b2z ll) (i + 34 + b2z ll + 2)) as [h [Hh Lh]]; try lia. rewrite Hh.
+    destruct (sub_some b (i + 34 + b2z ll + 2) (i + 34 + b2z ll + 4)) as [t [Ht Lt]]; try lia. rewrite Ht.
+    destruct (sub_some b (i + 34 + b2z ll + 4) (i + 34 + b2z ll + 6)) as [u [Hu Lu]]; try lia. rewrite Hu.
+    destruct (sub_some b (i + 34 + b2z ll + 6) (Z.of_nat (length b))) as [sg [Hsg Lsg]]; try lia. rewrite Hsg.
+    specialize (IH b (i + 34 + b2z ll + 70) e
+      ({| as_key := k; as_banned := negb (Byte.eqb bn x00); as_loc := loc; as_http := le_dec h;
+          as_tcp := le_dec t; as_udp := le_dec u; as_sig := pad 64 sg |} :: acc) ltac:(lia) He).
+    destruct IH as [IH1 [IH2 IH3]].
+    split; [exact IH1|]. split.
+    + intros Hf. apply IH2. lia.
+    + intros l Ha H. apply (IH3 l); [|exact H].
+      constructor; [|exact Ha]. unfold aserver_wf; cbn [as_key as_banned as_loc as_http as_tcp as_udp as_sig].
+      repeat split; try lia; try apply pad_length;
+        try (apply le_dec_2; lia).
+Qed.
+
+(* ------------------------------------------------------------------ the parser never panics *)
+Section Parser.
+  Variable verify : bytes -> bytes -> bytes -> bool.
+
+  Lemma parse_reply_total mykey skey gkey now b :
+    712 <= Z.of_nat (length b) < 65536 ->
+    parse_reply verify mykey skey gkey now b <> PPanic /\ parse_reply verify mykey skey gkey now b <> PFuel.
+  Proof.
+    intros Hn. unfold parse_reply. set (n := Z.of_nat (length b)) in *.
+    rewrite !u16_small by lia.
+    destruct (sub_some b (n - 72) n) as [tb [Htb Ltb]]; try lia. rewrite Htb.
+    destruct (sub_some tb 0 8) as [t8 [Ht8 Lt8]]; try lia. rewrite Ht8.
+    cbv zeta.
+    destruct ((u64 (u64 now + 86400) <? le_dec t8) || (le_dec t8 <? u64 (u64 now - 86400))); [split; congruence|].
+    destruct (sub_some b (n - 64) n) as [sg [Hsg Lsg]]; try lia. rewrite Hsg.
+    destruct (sub_some b 0 (n - 64)) as [msg [Hmsg Lmsg]]; try lia. rewrite Hmsg.
+    destruct (negb (verify skey msg (pad 64 sg))); [split; congruence|].
+    destruct (sub_some b 0 32) as [ek [Hek Lek]]; try lia. rewrite Hek.
+    destruct (sub_some b 32 36) as [off [Hoff Loff]]; try lia. rewrite Hoff.
+    destruct (sub_some b 36 540) as [bf [Hbf Lbf]]; try lia. rewrite Hbf.
+    destruct (sub_some b 540 572) as [ng [Hng Lng]]; try lia. rewrite Hng.
+    destruct (sub_some b 572 576) as [nid [Hnid Lnid]]; try lia. rewrite Hnid.
+    destruct (sub_some b (n - 136) (n - 72)) as [gsig [Hgsig Lgsig]]; try lia. rewrite Hgsig.
+    destruct (negb (bytes_eqb ek mykey)); [split; congruence|].
+    destruct (sub_some b 540 (n - 136)) as [mb [Hmb Lmb]]; try lia. rewrite Hmb.
+    destruct (negb (is_blank ng) && negb (verify gkey (ascii_bytes "EquipmentMigration" ++ ek ++ mb) (pad 64 gsig)));
+      [split; congruence|].
+    pose proof (parse_servers_props (S (length b)) b 576 (n - 136) [] ltac:(lia) ltac:(lia)) as [P1 [P2 _]].
+    specialize (P2 ltac:(lia)).
+    destruct (parse_servers (S (length b)) b 576 (n - 136) []); try congruence.
+    - destruct (forallb _ l); split; congruence.
+    - split; congruence.
+  Qed.
+
+  Lemma client_recv_total mykey skey gkey now stream :
+    client_recv verify 712 mykey skey gkey now stream <> PPanic /\
+    client_recv verify 712 mykey skey gkey now stream <> PFuel.
+  Proof.
+    unfold client_recv. destruct stream as [|l0 [|l1 rest]]; try (split; congruence).
+    set (n := le_dec [l0; l1]).
+    assert (Rn : 0 <= n < 65536) by (apply le_dec_2; reflexivity).
+    destruct (n <? 712) eqn:E1; [split; congruence|]. apply Z.ltb_ge in E1.
+    destruct (Z.of_nat (length rest) <? n) eqn:E2; [split; congruence|]. apply Z.ltb_ge in E2.
+    apply parse_reply_total. rewrite firstn_length. lia.
+  Qed.
+End Parser.
+
+(* ------------------------------------------------------------------ what an accepted reply guarantees *)
+Lemma fresh_math now st : 86400 <= now -> now + 86400 < 2^64 -> fresh now st = true ->
+  now - 86400 <= st <= now + 86400.
+Proof.
+  unfold fresh, u64. change (2^64) with 18446744073709551616. intros H1 H2 H.
+  rewrite (Z.mod_small now) in H by lia.
+  rewrite !Z.mod_small in H by lia.
+  apply negb_true_iff, orb_false_iff in H. destruct H as [A B].
+  apply Z.ltb_ge in A, B. lia.
+Qed.
+
+Lemma skipn_skipn' {A} (a : nat) : forall (c : nat) (l : list A), skipn a (skipn c l) = skipn (c + a) l.
+Proof.
+  induction c as [|c IH]; intros l; [reflexivity|].
+  destruct l as [|x l]; [rewrite !skipn_nil; reflexivity|]. cbn [skipn Nat.add]. apply IH.
+Qed.
+
+Lemma sub_sub b lo hi x a c y : sub b lo hi = Some x -> sub x a c = Some y ->
+  sub b (lo + a) (lo + c) = Some y.
+Proof.
+  intros H1 H2. apply sub_inv in H1 as (A1 & A2 & A3 & A4 & A5).
+  apply sub_inv in H2 as (B1 & B2 & B3 & B4 & B5).
+  unfold sub. replace ((0 <=? lo + a) && (lo + a <=? lo + c) && (lo + c <=? Z.of_nat (length b))) with true
+    by (symmetry; rewrite !andb_true_iff, !Z.leb_le; lia).
+  f_equal. subst y x.
+  rewrite skipn_firstn_comm, firstn_firstn, skipn_skipn'.
+  f_equal; [lia|]. f_equal. lia.
+Qed.
+
+Section Sound.
+  Variable verify : bytes -> bytes -> bytes -> bool.
+
+  Lemma parse_reply_sound mykey skey gkey now b r :
+    712 <= Z.of_nat (length b) < 65536 ->
+    parse_reply verify mykey skey gkey now b = POk r -> accepted verify mykey skey gkey now b r.
+  Proof.
+    intros Hn H. unfold parse_reply in H. set (n := Z.of_nat (length b)) in *.
+    rewrite !u16_small in H by lia.
+    destruct (sub b (n - 72) n) as [tb|] eqn:Htb; [|discriminate].
+    destruct (sub tb 0 8) as [t8|] eqn:Ht8; [|discriminate].
+    cbv zeta in H.
+    destruct ((u64 (u64 now + 86400) <? le_dec t8) || (le_dec t8 <? u64 (u64 now - 86400))) eqn:Etime; [discriminate|].
+    destruct (sub b (n - 64) n) as [sg|] eqn:Hsg; [|discriminate].
+    destruct (sub b 0 (n - 64)) as [msg|] eqn:Hmsg; [|discriminate].
+    destruct (verify skey msg (pad 64 sg)) eqn:Eouter; [|discriminate]. cbn [negb] in H.
+    destruct (sub b 0 32) as [ek|] eqn:Hek; [|discriminate].
+    destruct (sub b 32 36) as [off|] eqn:Hoff; [|discriminate].
+    destruct (sub b 36 540) as [bf|] eqn:Hbf; [|discriminate].
+    destruct (sub b 540 572) as [ng|] eqn:Hng; [|discriminate].
+    destruct (sub b 572 576) as [nid|] eqn:Hnid; [|discriminate].
+    destruct (sub b (n - 136) (n - 72)) as [gsig|] eqn:Hgsig; [|discriminate].
+    destruct (bytes_eqb ek mykey) eqn:Ekey; [|discriminate]. cbn [negb] in H.
+    apply bytes_eqb_eq in Ekey. subst ek.
+    destruct (sub b 540 (n - 136)) as [mb|] eqn:Hmb; [|discriminate].
+    destruct (negb (is_blank ng) && negb (verify gkey (ascii_bytes "EquipmentMigration" ++ mykey ++ mb) (pad 64 gsig))) eqn:Emig;
+      [discriminate|].
+    destruct (parse_servers (S (length b)) b 576 (n - 136) []) as [l| | |] eqn:Hl; try discriminate.
+    destruct (forallb (fun s => verify (if is_blank ng then gkey else ng) (as_signing_bytes s) (as_sig s)) l) eqn:Esrv;
+      [|discriminate].
+    injection H as <-. cbn [p_offset p_bitfield p_newgca p_newid p_servers].
+    assert (Lsg : length sg = 64%nat) by (apply sub_inv in Hsg as (_ & _ & _ & _ & L); rewrite L; lia).
+    assert (Lgs : length gsig = 64%nat) by (apply sub_inv in Hgsig as (_ & _ & _ & _ & L); rewrite L; lia).
+    rewrite (pad_exact 64 sg Lsg) in Eouter. rewrite (pad_exact 64 gsig Lgs) in Emig.
+    constructor; cbn [p_offset p_bitfield p_newgca p_newid p_servers]; fold n; eauto.
+    - exists t8. split.
+      + pose proof (sub_sub b (n - 72) n tb 0 8 t8 Htb Ht8) as S.
+        replace (n - 72 + 0) with (n - 72) in S by lia. replace (n - 72 + 8) with (n - 64) in S by lia. exact S.
+      + unfold fresh. rewrite Etime. reflexivity.
+    - intros Hb. rewrite Hb in Emig. cbn [negb andb] in Emig. apply negb_false_iff in Emig. eauto.
+    - unfold who_signs. apply Forall_forall. intros s Hs. rewrite forallb_forall in Esrv. apply Esrv. exact Hs.
+    - pose proof (parse_servers_props (S (length b)) b 576 (n - 136) [] ltac:(lia) ltac:(lia)) as [_ [_ P3]].
+      apply (P3 l); [constructor | exact Hl].
+  Qed.
+
+  Lemma client_recv_sound mykey skey gkey now stream r :
+    client_recv verify 712 mykey skey gkey now stream = POk r ->
+    exists l0 l1 rest, stream = l0 :: l1 :: rest /\
+      le_dec [l0; l1] <= Z.of_nat (length rest) /\
+      accepted verify mykey skey gkey now (firstn (Z.to_nat (le_dec [l0; l1])) rest) r.
+  Proof.
+    unfold client_recv. destruct stream as [|l0 [|l1 rest]]; try discriminate.
+    set (n := le_dec [l0; l1]).
+    assert (Rn : 0 <= n < 65536) by (apply le_dec_2; reflexivity).
+    destruct (n <? 712) eqn:E1; [discriminate|]. apply Z.ltb_ge in E1.
+    destruct (Z.of_nat (length rest) <? n) eqn:E2; [discriminate|]. apply Z.ltb_ge in E2.
+    intros H. exists l0, l1, rest. split; [reflexivity|]. split; [exact E2|].
+    apply parse_reply_sound; [|exact H]. rewrite firstn_length. lia.
+  Qed.
+End Sound.
+
+(* ------------------------------------------------------------------ the server map *)
+Lemma smap_get_set_same k v m : smap_get k (smap_set k v m) = Some v.
+Proof.
+  induction m as [|[k' v'] m IH]; cbn [smap_set smap_get].
+  - rewrite bytes_eqb_refl. reflexivity.
+  - destruct (bytes_eqb k k') eqn:E; cbn [smap_get]; rewrite E; [reflexivity | exact IH].
+Qed.
+Lemma smap_get_set_other k k' v m : k' <> k -> smap_get k' (smap_set k v m) = smap_get k' m.
+Proof.
+  intros N. induction m as [|[k2 v2] m IH]; cbn [smap_set smap_get].
+  - apply bytes_eqb_neq in N. rewrite N. reflexivity.
+  - destruct (bytes_eqb k k2) eqn:E; cbn [smap_get].
+    + apply bytes_eqb_eq in E. subst k2. apply bytes_eqb_neq in N. rewrite N. reflexivity.
+    + rewrite IH. reflexivity.
+Qed.
+Lemma smap_get_in k m g : smap_get k m = Some g -> In (k, g) m.
+Proof.
+  induction m as [|[k' v'] m IH]; cbn [smap_get]; [discriminate|].
+  destruct (bytes_eqb k k') eqn:E.
+  - apply bytes_eqb_eq in E. subst. intros H; injection H as ->. left; reflexivity.
+  - intros H. right. apply IH. exact H.
+Qed.
+Lemma smap_get_none_keys k m : smap_get k m = None <-> ~ In k (smap_keys m).
+Proof.
+  induction m as [|[k' v'] m IH]; cbn [smap_get smap_keys map fst]; [tauto|].
+  destruct (bytes_eqb k k') eqn:E.
+  - apply bytes_eqb_eq in E. subst. split; [discriminate | intros H; exfalso; apply H; left; reflexivity].
+  - apply bytes_eqb_neq in E. rewrite IH. cbn [In]. split; intros H; [intros [A|A]; [congruence | tauto] | tauto].
+Qed.
+Lemma smap_keys_set k v m :
+  smap_keys (smap_set k v m) = match smap_get k m with Some _ => smap_keys m | None => smap_keys m ++ [k] end.
+Proof.
+  induction m as [|[k' v'] m IH]; cbn [smap_set smap_get smap_keys map fst app]; [reflexivity|].
+  destruct (bytes_eqb k k') eqn:E; cbn [map fst].
+  - reflexivity.
+  - fold (smap_keys (smap_set k v m)). rewrite IH. destruct (smap_get k m); reflexivity.
+Qed.
+Lemma smap_in_set kv k v m : In kv (smap_set k v m) -> In kv m \/ kv = (k, v).
+Proof.
+  induction m as [|[k' v'] m IH]; cbn [smap_set].
+  - intros [H|[]]; right; congruence.
+  - destruct (bytes_eqb k k') eqn:E.
+    + apply bytes_eqb_eq in E. subst k'. intros [H|H]; [right; congruence | left; right; exact H].
+    + intros [H|H]; [left; left; exact H|]. destruct (IH H) as [A|A]; [left; right; exact A | right; exact A].
+Qed.
+Lemma NoDup_snoc {A} (l : list A) (x : A) : NoDup l -> ~ In x l -> NoDup (l ++ [x]).
+Proof.
+  induction l as [|y l IH]; intros ND NI; cbn [app].
+  - constructor; [intros [] | constructor].
+  - inversion ND; subst. constructor.
+    + rewrite in_app_iff. cbn [In]. intros [H|[H|[]]]; [tauto | subst; apply NI; left; reflexivity].
+    + apply IH; [assumption | intros H; apply NI; right; exact H].
+Qed.
+Lemma smap_wf_set k v m : smap_wf m -> length k = 32%nat -> gserver_wf v -> smap_wf (smap_set k v m).
+Proof.
+  intros [ND FA] Lk Wv. split.
+  - rewrite smap_keys_set. destruct (smap_get k m) eqn:E; [exact ND|].
+    apply smap_get_none_keys in E. apply NoDup_snoc; assumption.
+  - apply Forall_forall. intros kv H. apply smap_in_set in H as [H| ->].
+    + rewrite Forall_forall in FA. apply FA. exact H.
+    + cbn [fst snd]. split; assumption.
+Qed.
+
+Section Merge.
+  Lemma merge_one_get m s k :
+    smap_get k (merge_one m s) =
+      if bytes_eqb k (as_key s) then
+        match smap_get k m with
+        | Some g => if as_banned s then Some (gserver_of s) else Some g
+        | None => Some (gserver_of s)
+        end
+      else smap_get k m.
+  Proof.
+    unfold merge_one. destruct (bytes_eqb k (as_key s)) eqn:E.
+    - apply bytes_eqb_eq in E. subst k. destruct (smap_get (as_key s) m) eqn:G.
+      + destruct (as_banned s); [apply smap_get_set_same | exact G].
+      + apply smap_get_set_same.
+    - apply bytes_eqb_neq in E. destruct (smap_get (as_key s) m).
+      + destruct (as_banned s); [apply smap_get_set_other; exact E | reflexivity].
+      + apply smap_get_set_other; exact E.
+  Qed.
+
+  Lemma ban_le_refl m : ban_le m m.
+  Proof. intros k g H B. eauto. Qed.
+  Lemma ban_le_trans a b c : ban_le a b -> ban_le b c -> ban_le a c.
+  Proof. intros H1 H2 k g G B. destruct (H1 k g G B) as [g' [G' B']]. exact (H2 k g' G' B'). Qed.
+  Lemma entry_keep_refl m : entry_keep m m.
+  Proof. intros k g H. eauto. Qed.
+  Lemma entry_keep_trans a b c : entry_keep a b -> entry_keep b c -> entry_keep a c.
+  Proof.
+    intros H1 H2 k g G. destruct (H1 k g G) as [g' [G' D]]. destruct (H2 k g' G') as [g'' [G'' D']].
+    exists g''. split; [exact G''|]. destruct D' as [->|B]; [exact D | right; exact B].
+  Qed.
+
+  Lemma merge_one_ban_le m s : ban_le m (merge_one m s).
+  Proof.
+    intros k g G B. rewrite merge_one_get, G. destruct (bytes_eqb k (as_key s)); [|eauto].
+    destruct (as_banned s) eqn:Bs; [|eauto]. exists (gserver_of s). split; [reflexivity | exact Bs].
+  Qed.
+  Lemma merge_one_entry_keep m s : entry_keep m (merge_one m s).
+  Proof.
+    intros k g G. rewrite merge_one_get, G. destruct (bytes_eqb k (as_key s)); [|eauto].
+    destruct (as_banned s) eqn:Bs; [|eauto]. exists (gserver_of s). split; [reflexivity | right; exact Bs].
+  Qed.
+  (* the strict form: an entry is unchanged unless it was not banned and the posted record is a ban *)
+  Lemma merge_one_entry_strict m s k g : smap_get k m = Some g -> g_banned g = false ->
+    exists g', smap_get k (merge_one m s) = Some g' /\ (g' = g \/ (g_banned g' = true /\ g' = gserver_of s)).
+  Proof.
+    intros G B. rewrite merge_one_get, G. destruct (bytes_eqb k (as_key s)); [|eauto].
+    destruct (as_banned s) eqn:Bs; [|eauto]. exists (gserver_of s). split; [reflexivity | right; split; [exact Bs | reflexivity]].
+  Qed.
+  Lemma merge_one_provenance m s k g : smap_get k (merge_one m s) = Some g ->
+    smap_get k m = Some g \/ (as_key s = k /\ g = gserver_of s).
+  Proof.
+    rewrite merge_one_get. destruct (bytes_eqb k (as_key s)) eqn:E; [|tauto].
+    apply bytes_eqb_eq in E. destruct (smap_get k m) eqn:G.
+    - destruct (as_banned s); intros H; injection H as <-; [right; split; congruence | left; reflexivity].
+    - intros H; injection H as <-. right; split; congruence.
+  Qed.
+  Lemma merge_one_wf m s : smap_wf m -> aserver_wf s -> smap_wf (merge_one m s).
+  Proof.
+    intros W (Lk & Ll & Hh & Ht & Hu & _).
+    assert (G : gserver_wf (gserver_of s)) by (unfold gserver_wf, gserver_of; cbn; change (2^16) with 65536; repeat split; lia).
+    unfold merge_one. destruct (smap_get (as_key s) m); [destruct (as_banned s)|]; try exact W; apply smap_wf_set; assumption.
+  Qed.
+
+  Lemma merge_ban_le l : forall m, ban_le m (merge m l).
+  Proof.
+    unfold merge. induction l as [|s l IH]; intros m; cbn [fold_left]; [apply ban_le_refl|].
+    eapply ban_le_trans; [apply merge_one_ban_le | apply IH].
+  Qed.
+  Lemma merge_entry_keep l : forall m, entry_keep m (merge m l).
+  Proof.
+    unfold merge. induction l as [|s l IH]; intros m; cbn [fold_left]; [apply entry_keep_refl|].
+    eapply entry_keep_trans; [apply merge_one_entry_keep | apply IH].
+  Qed.
+  Lemma merge_provenance l : forall m k g, smap_get k (merge m l) = Some g ->
+    smap_get k m = Some g \/ exists s, In s l /\ as_key s = k /\ g = gserver_of s.
+  Proof.
+    unfold merge. induction l as [|s l IH]; intros m k g; cbn [fold_left]; [tauto|].
+    intros H. destruct (IH _ _ _ H) as [A|[s' [I [K G]]]].
+    - apply merge_one_provenance in A as [A|[K G]]; [left; exact A | right; exists s; cbn [In]; tauto].
+    - right. exists s'. cbn [In]. tauto.
+  Qed.
+  Lemma merge_wf l : forall m, smap_wf m -> Forall aserver_wf l -> smap_wf (merge m l).
+  Proof.
+    unfold merge. induction l as [|s l IH]; intros m W F; cbn [fold_left]; [exact W|].
+    inversion F; subst. apply IH; [apply merge_one_wf; assumption | assumption].
+  Qed.
+End Merge.
+
+(* ------------------------------------------------------------------ the persisted map *)
+Definition entry_bytes (k : bytes) (g : gserver) : bytes :=
+  k ++ [bool_byte (g_banned g)] ++ le_enc 2 (Z.of_nat (length (g_loc g))) ++ g_loc g ++
+  le_enc 2 (g_http g) ++ le_enc 2 (g_tcp g) ++ le_enc 2 (g_udp g).
+
+Lemma smap_entry_wf k g : length k = 32%nat -> gserver_wf g -> smap_entry (k, g) = Some (entry_bytes k g).
+Proof.
+  intros Lk (Ll & _). unfold smap_entry, entry_bytes.
+  replace (65535 <? Z.of_nat (length (g_loc g))) with false by (symmetry; apply Z.ltb_ge; lia).
+  rewrite (pad_exact 32 k Lk). reflexivity.
+Qed.
+
+Lemma bool_byte_dec bn : negb (Byte.eqb (bool_byte bn) x00) = bn.
+Proof. destruct bn; reflexivity. Qed.
+
+Lemma le_dec_enc2 z : 0 <= z < 2^16 -> le_dec (le_enc 2 z) = z.
+Proof. intros H. apply le_dec_enc_small. exact H. Qed.
+
+Definition deser_body (f : nat) (b : bytes) (acc : smap) : dres :=
+  if (length b <? 32)%nat then DErr else
+  let k := firstn 32 b in let b1 := skipn 32 b in
+  match b1 with
+  | [] => DErr
+  | bn :: b2 =>
+      if (length b2 <? 2)%nat then DErr else
+      let ll := Z.to_nat (le_dec (firstn 2 b2)) in let b3 := skipn 2 b2 in
+      if (length b3 <? ll)%nat then DErr else
+      let loc := firstn ll b3 in let b4 := skipn ll b3 in
+      if (length b3 =? 0)%nat then DErr else
+      if (length b4 <? 6)%nat then DErr else
+      let g := {| g_banned := negb (Byte.eqb bn x00); g_loc := loc;
+                  g_http := le_dec (firstn 2 b4); g_tcp := le_dec (firstn 2 (skipn 2 b4));
+                  g_udp := le_dec (firstn 2 (skipn 4 b4)) |} in
+      smap_deser f (skipn 6 b4) (smap_set k g acc)
+  end.
+Lemma deser_unfold f b acc : b <> [] -> smap_deser (S f) b acc = deser_body f b acc.
+Proof. destruct b; [congruence | reflexivity]. Qed.
+
+Lemma firstn_app_len {A} n (a b : list A) : length a = n -> firstn n (a ++ b) = a.
+Proof. intros <-. apply firstn_app_exact. Qed.
+Lemma skipn_app_len {A} n (a b : list A) : length a = n -> skipn n (a ++ b) = b.
+Proof. intros <-. apply skipn_app_exact. Qed.
+
+Lemma deser_step f k g rest acc : length k = 32%nat -> gserver_wf g ->
+  smap_deser (S f) (entry_bytes k g ++ rest) acc = smap_deser f rest (smap_set k g acc).
+Proof.
+  intros Lk (Ll & Hh & Ht & Hu).
+  set (loc := g_loc g) in *.
+  remember (le_enc 2 (g_http g)) as H2 eqn:EH2. remember (le_enc 2 (g_tcp g)) as T2 eqn:ET2.
+  remember (le_enc 2 (g_udp g)) as U2 eqn:EU2.
+  assert (LH : length H2 = 2%nat) by (subst H2; apply le_enc_length).
+  assert (LT : length T2 = 2%nat) by (subst T2; apply le_enc_length).
+  assert (LU : length U2 = 2%nat) by (subst U2; apply le_enc_length).
+  remember (le_enc 2 (Z.of_nat (length loc))) as LL eqn:ELL.
+  assert (L2 : length LL = 2%nat) by (subst LL; apply le_enc_length).
+  assert (Eb : entry_bytes k g ++ rest = k ++ bool_byte (g_banned g) :: LL ++ loc ++ H2 ++ T2 ++ U2 ++ rest).
+  { unfold entry_bytes. fold loc. subst LL H2 T2 U2. rewrite <- !app_assoc. reflexivity. }
+  rewrite Eb. rewrite deser_unfold.
+  2:{ intros Ek. apply (f_equal (@length byte)) in Ek. rewrite app_length in Ek. cbn [length] in Ek. lia. }
+  unfold deser_body.
+  replace (length (k ++ bool_byte (g_banned g) :: LL ++ loc ++ H2 ++ T2 ++ U2 ++ rest) <? 32)%nat with false
+    by (symmetry; apply Nat.ltb_ge; rewrite app_length; lia).
+  rewrite (firstn_app_len 32 k _ Lk), (skipn_app_len 32 k _ Lk).
+  replace (length (LL ++ loc ++ H2 ++ T2 ++ U2 ++ rest) <? 2)%nat with false
+    by (symmetry; apply Nat.ltb_ge; rewrite app_length; lia).
+  rewrite (firstn_app_len 2 LL _ L2), (skipn_app_len 2 LL _ L2).
+  assert (EL : Z.to_nat (le_dec LL) = length loc)
+    by (subst LL; rewrite le_dec_enc2 by (change (2^16) with 65536; lia); apply Nat2Z.id).
+  rewrite !EL.
+  replace (length (loc ++ H2 ++ T2 ++ U2 ++ rest) <? length loc)%nat with false
+    by (symmetry; apply Nat.ltb_ge; rewrite app_length; lia).
+  replace (length (loc ++ H2 ++ T2 ++ U2 ++ rest) =? 0)%nat with false
+    by (symmetry; apply Nat.eqb_neq; rewrite !app_length; lia).
+  rewrite (firstn_app_len (length loc) loc _ eq_refl), (skipn_app_len (length loc) loc _ eq_refl).
+  replace (length (H2 ++ T2 ++ U2 ++ rest) <? 6)%nat with false
+    by (symmetry; apply Nat.ltb_ge; rewrite !app_length; lia).
+  rewrite (firstn_app_len 2 H2 _ LH), (skipn_app_len 2 H2 _ LH), (firstn_app_len 2 T2 _ LT).
+  replace (skipn 4 (H2 ++ T2 ++ U2 ++ rest)) with (U2 ++ rest)
+    by (symmetry; rewrite app_assoc; apply skipn_app_len; rewrite app_length; lia).
+  replace (skipn 6 (H2 ++ T2 ++ U2 ++ rest)) with rest
+    by (symmetry; rewrite !app_assoc; apply skipn_app_len; rewrite !app_length; lia).
+  rewrite (firstn_app_len 2 U2 _ LU).
+  subst H2 T2 U2. rewrite !le_dec_enc2 by assumption. rewrite bool_byte_dec.
+  destruct g; reflexivity.
+Qed.
+
+Definition entry_ok (kv : bytes * gserver) : Prop := length (fst kv) = 32%nat /\ gserver_wf (snd kv).
+Definition set_all (m acc : smap) : smap := fold_left (fun a kv => smap_set (fst kv) (snd kv) a) m acc.
+Definition raw_of (m : smap) : bytes := List.concat (map (fun kv => entry_bytes (fst kv) (snd kv)) m).
+
+Lemma serialize_wf m : Forall entry_ok m -> smap_serialize m = Some (raw_of m).
+Proof.
+  induction m as [|[k g] m IH]; intros F; [reflexivity|].
+  inversion F as [|? ? [Lk Wg] F']; subst. cbn [smap_serialize]. cbn [fst snd] in *.
+  assert (QQ : smap_entry ((k, g) : bytes * gserver) = Some (entry_bytes k g)) by (apply smap_entry_wf; assumption).
+  rewrite QQ, (IH F'). reflexivity.
+Qed.
+
+Lemma deser_all : forall m acc fuel, Forall entry_ok m -> (length m < fuel)%nat ->
+  smap_deser fuel (raw_of m) acc = DOk (set_all m acc).
+Proof.
+  induction m as [|[k g] m IH]; intros acc fuel F Hf.
+  - destruct fuel; [cbn in Hf; lia | reflexivity].
+  - inversion F as [|? ? [Lk Wg] F']; subst. cbn [fst snd] in *.
+    destruct fuel as [|f]; [cbn in Hf; lia|].
+    unfold raw_of. cbn [map List.concat fst snd]. fold (raw_of m).
+    rewrite deser_step by assumption. unfold set_all. cbn [fold_left fst snd]. apply IH; [assumption | cbn [length] in Hf; lia].
+Qed.
+
+Lemma entry_bytes_length k g : (1 <= length (entry_bytes k g))%nat.
+Proof. unfold entry_bytes. rewrite !app_length. cbn [length]. lia. Qed.
+Lemma raw_of_length m : (length m <= length (raw_of m))%nat.
+Proof.
+  induction m as [|[k g] m IH]; [cbn; lia|].
+  unfold raw_of. cbn [map List.concat fst snd length]. fold (raw_of m). rewrite app_length.
+  pose proof (entry_bytes_length k g). lia.
+Qed.
+
+Lemma smap_get_app_none k a b : smap_get k a = None -> smap_get k (a ++ b) = smap_get k b.
+Proof.
+  induction a as [|[k' v'] a IH]; cbn [smap_get app]; [reflexivity|].
+  destruct (bytes_eqb k k'); [discriminate | exact IH].
+Qed.
+Lemma smap_set_fresh k v m : smap_get k m = None -> smap_set k v m = m ++ [(k, v)].
+Proof.
+  induction m as [|[k' v'] m IH]; cbn [smap_get smap_set app]; [reflexivity|].
+  destruct (bytes_eqb k k'); [discriminate|]. intros H. rewrite (IH H). reflexivity.
+Qed.
+Lemma smap_get_none_keys' k m : smap_get k m = None <-> ~ In k (smap_keys m).
+Proof.
+  induction m as [|[k' v'] m IH]; cbn [smap_get smap_keys map fst]; [tauto|].
+  destruct (bytes_eqb k k') eqn:E.
+  - apply bytes_eqb_eq in E. subst. split; [discriminate | intros H; exfalso; apply H; left; reflexivity].
+  - apply bytes_eqb_neq in E. fold (smap_keys m). rewrite IH. cbn [In]. split; intros H; [intros [A|A]; [congruence | tauto] | tauto].
+Qed.
+Lemma set_all_nodup : forall m acc, NoDup (smap_keys acc ++ smap_keys m) -> set_all m acc = acc ++ m.
+Proof.
+  induction m as [|[k g] m IH]; intros acc ND; unfold set_all; cbn [fold_left fst snd].
+  - rewrite app_nil_r. reflexivity.
+  - assert (NI : ~ In k (smap_keys acc)).
+    { cbn [smap_keys map fst] in ND. apply NoDup_remove_2 in ND. intros H. apply ND. apply in_or_app. left. exact H. }
+    rewrite smap_set_fresh by (apply smap_get_none_keys'; exact NI).
+    fold (set_all m (acc ++ [(k, g)])). rewrite IH.
+    + rewrite <- app_assoc. reflexivity.
+    + unfold smap_keys in *. rewrite map_app. cbn [map fst app] in *. rewrite <- app_assoc. exact ND.
+Qed.
+
+Lemma smap_roundtrip m : smap_wf m ->
+  smap_serialize m = Some (raw_of m) /\ smap_deserialize (raw_of m) = DOk m.
+Proof.
+  intros [ND F]. split; [apply serialize_wf; exact F|].
+  unfold smap_deserialize. rewrite deser_all; [|exact F | pose proof (raw_of_length m); lia].
+  rewrite set_all_nodup; [reflexivity | exact ND].
+Qed.
+
+(* what the deserializer returns is well formed *)
+Lemma le_dec_le2 x : (length x <= 2)%nat -> 0 <= le_dec x < 2^16.
+Proof.
+  intros H. pose proof (le_dec_range x) as R. change (2^16) with 65536.
+  destruct x as [|a [|b [|c x]]]; cbn [length] in *; lia.
+Qed.
+
+Lemma deser_wf : forall fuel b acc m, smap_wf acc -> smap_deser fuel b acc = DOk m -> smap_wf m.
+Proof.
+  induction fuel as [|f IH]; intros b acc m W H; [discriminate|].
+  destruct b as [|x0 xs] eqn:Eb; [cbn in H; injection H as <-; exact W|].
+  rewrite <- Eb in H. rewrite deser_unfold in H by (rewrite Eb; discriminate). unfold deser_body in H.
+  destruct (length b <? 32)%nat eqn:E32; [discriminate|]. apply Nat.ltb_ge in E32.
+  destruct (skipn 32 b) as [|bn b2]; [discriminate|].
+  destruct (length b2 <? 2)%nat; [discriminate|].
+  cbv zeta in H.
+  destruct (length (skipn 2 b2) <? Z.to_nat (le_dec (firstn 2 b2)))%nat; [discriminate|].
+  destruct (length (skipn 2 b2) =? 0)%nat; [discriminate|].
+  destruct (length (skipn (Z.to_nat (le_dec (firstn 2 b2))) (skipn 2 b2)) <? 6)%nat; [discriminate|].
+  eapply IH; [|exact H]. apply smap_wf_set; [exact W | rewrite firstn_length; lia |].
+  pose proof (le_dec_le2 (firstn 2 b2) ltac:(rewrite firstn_length; lia)) as R0.
+  unfold gserver_wf; cbn [g_loc g_http g_tcp g_udp].
+  repeat split; try (apply le_dec_le2; rewrite firstn_length; lia).
+  rewrite firstn_length. change (2^16) with 65536 in R0. lia.
+Qed.
+Lemma deserialize_wf b m : smap_deserialize b = DOk m -> smap_wf m.
+Proof. apply deser_wf. split; constructor. Qed.
+
+(* ------------------------------------------------------------------ the critical section after an accepted reply *)
+Lemma apply_sync_spec st r st' : apply_sync st r = Some st' ->
+  c_locked st' = c_locked st /\ c_primary st' = c_primary st /\
+  smap_serialize (c_servers st') = Some (f_map (c_files st')) /\
+  ((is_migration st r = true /\ c_gca st' = p_newgca r /\ c_id st' = p_newid r /\
+    c_servers st' = merge [] (p_servers r) /\
+    f_gca (c_files st') = p_newgca r /\ f_id (c_files st') = le_enc 4 (p_newid r)) \/
+   (is_migration st r = false /\ c_gca st' = c_gca st /\ c_id st' = c_id st /\
+    c_servers st' = merge (c_servers st) (p_servers r) /\
+    f_gca (c_files st') = f_gca (c_files st) /\ f_id (c_files st') = f_id (c_files st))).
+Proof.
+  unfold apply_sync. destruct (is_migration st r) eqn:M.
+  - destruct (smap_serialize (merge [] (p_servers r))) as [raw|] eqn:S; [|discriminate].
+    intros H; injection H as <-. cbn. repeat split; try exact S. left. repeat split.
+  - destruct (smap_serialize (merge (c_servers st) (p_servers r))) as [raw|] eqn:S; [|discriminate].
+    intros H; injection H as <-. cbn. repeat split; try exact S. right. repeat split.
+Qed.
+
+Lemma smap_wf_nil : smap_wf [].
+Proof. split; constructor. Qed.
+
+Lemma apply_sync_total st r : smap_wf (c_servers st) -> Forall aserver_wf (p_servers r) ->
+  exists st', apply_sync st r = Some st'.
+Proof.
+  intros W F. unfold apply_sync. destruct (is_migration st r).
+  - pose proof (merge_wf (p_servers r) [] smap_wf_nil F) as W'.
+    destruct (smap_roundtrip _ W') as [S _]. rewrite S. eauto.
+  - pose proof (merge_wf (p_servers r) _ W F) as W'.
+    destruct (smap_roundtrip _ W') as [S _]. rewrite S. eauto.
+Qed.
+
+Lemma apply_sync_wf st r st' : cstate_wf st -> Forall aserver_wf (p_servers r) ->
+  length (p_newgca r) = 32%nat -> 0 <= p_newid r < 2^32 ->
+  apply_sync st r = Some st' -> cstate_wf st'.
+Proof.
+  intros (Lg & Ri & W) F Ln Rn H. apply apply_sync_spec in H as (_ & _ & _ & [(_ & G & I & S & _)|(_ & G & I & S & _)]);
+    unfold cstate_wf; rewrite G, I, S; (split; [|split]); try assumption.
+  - apply merge_wf; [apply smap_wf_nil | exact F].
+  - apply merge_wf; assumption.
+Qed.
+
+Lemma persisted_after st r st' : cstate_wf st -> persisted st -> Forall aserver_wf (p_servers r) ->
+  length (p_newgca r) = 32%nat -> 0 <= p_newid r < 2^32 ->
+  apply_sync st r = Some st' -> persisted st'.
+Proof.
+  intros Wst (P1 & P2 & P3 & P4) F Ln Rn H.
+  pose proof (apply_sync_wf st r st' Wst F Ln Rn H) as (_ & _ & W').
+  apply apply_sync_spec in H as (_ & _ & S & D).
+  destruct (smap_roundtrip _ W') as [S' R']. rewrite S' in S. injection S as S.
+  unfold persisted. rewrite <- S, R'.
+  destruct D as [(_ & G & I & _ & FG & FI)|(_ & G & I & _ & FG & FI)]; rewrite FG, FI, G, I.
+  - repeat split.
+    + apply pad_exact. exact Ln.
+    + rewrite le_enc_length. lia.
+    + rewrite <- (le_enc_length 4 (p_newid r)) at 1. rewrite firstn_all. apply le_dec_enc_small.
+      change (256 ^ Z.of_nat 4) with (2^32). exact Rn.
+  - repeat split; assumption.
+Qed.
+
+(* ------------------------------------------------------------------ the retry loop *)
+Section Round.
+  Variable verify : bytes -> bytes -> bytes -> bool.
+
+  Lemma select_usable ord failed m k : select ord failed m = Some k -> usable m k.
+  Proof.
+    unfold select. intros H. apply find_some in H as [_ H]. unfold admissible in H.
+    destruct (smap_get k m) as [g|] eqn:G; [|discriminate].
+    apply andb_prop in H as [_ H]. exists g. split; [exact G | apply negb_true_iff; exact H].
+  Qed.
+
+  Lemma sync_loop_inv ver mykey gk att : forall k i failed tr st st' lr tr',
+    c_locked st = false ->
+    sync_loop verify ver mykey gk att k i failed tr st = (st', lr, tr') ->
+    identity st' = identity st /\ c_files st' = c_files st /\ lr <> LBlocked /\
+    c_locked st' = (match lr with LNotFound => negb (v_unlock_notfound ver) | _ => false end) /\
+    (exists new, tr' = new ++ tr /\ Forall (usable (c_servers st)) new) /\
+    (forall r, lr = LGot r -> exists key now s, usable (c_servers st) key /\
+                 client_recv verify (v_minlen ver) mykey key gk now s = POk r) /\
+    (v_minlen ver = 712 -> lr <> LPanic /\ lr <> LFuel).
+  Proof.
+    induction k as [|k IH]; intros i failed tr st st' lr tr' L H.
+    - cbn in H. injection H as <- <- <-. repeat split; try congruence.
+      exists []. split; [reflexivity | constructor].
+    - cbn [sync_loop] in H. destruct (att i) as [|ord o now].
+      { injection H as <- <- <-. repeat split; try congruence. exists []. split; [reflexivity | constructor]. }
+      rewrite L in H.
+      destruct (select ord failed (c_servers st)) as [key|] eqn:Sel.
+      2:{ injection H as <- <- <-. repeat split; try congruence. exists []. split; [reflexivity | constructor]. }
+      pose proof (select_usable _ _ _ _ Sel) as U.
+      assert (base : forall lr0, lr0 <> LBlocked -> lr0 <> LNotFound ->
+                (lr0 <> LPanic /\ lr0 <> LFuel \/ v_minlen ver <> 712) ->
+                (forall r, lr0 = LGot r -> exists key0 now0 s, usable (c_servers st) key0 /\
+                    client_recv verify (v_minlen ver) mykey key0 gk now0 s = POk r) ->
+                (set_primary st key, lr0, key :: tr) = (st', lr, tr') ->
+                identity st' = identity st /\ c_files st' = c_files st /\ lr <> LBlocked /\
+                c_locked st' = (match lr with LNotFound => negb (v_unlock_notfound ver) | _ => false end) /\
+                (exists new, tr' = new ++ tr /\ Forall (usable (c_servers st)) new) /\
+                (forall r, lr = LGot r -> exists key now s, usable (c_servers st) key /\
+                     client_recv verify (v_minlen ver) mykey key gk now s = POk r) /\
+                (v_minlen ver = 712 -> lr <> LPanic /\ lr <> LFuel)).
+      { intros lr0 N1 N2 N3 G E. injection E as <- <- <-. repeat split; try assumption; try reflexivity.
+        - cbn. destruct lr0; try reflexivity; try exact L. congruence.
+        - exists [key]. split; [reflexivity | constructor; [exact U | constructor]].
+        - destruct N3 as [[A _]|A]; [exact A | congruence].
+        - destruct N3 as [[_ A]|A]; [exact A | congruence]. }
+      assert (rec : sync_loop verify ver mykey gk att k (S i) (key :: failed) (key :: tr) (set_primary st key) = (st', lr, tr') ->
+                identity st' = identity st /\ c_files st' = c_files st /\ lr <> LBlocked /\
+                c_locked st' = (match lr with LNotFound => negb (v_unlock_notfound ver) | _ => false end) /\
+                (exists new, tr' = new ++ tr /\ Forall (usable (c_servers st)) new) /\
+                (forall r, lr = LGot r -> exists key now s, usable (c_servers st) key /\
+                     client_recv verify (v_minlen ver) mykey key gk now s = POk r) /\
+                (v_minlen ver = 712 -> lr <> LPanic /\ lr <> LFuel)).
+      { intros E. apply IH in E; [|exact L].
+        destruct E as (E1 & E2 & E3 & E4 & (new & E5 & E6) & E7 & E8).
+        repeat split; try assumption.
+        - exists (new ++ [key]). split; [rewrite <- app_assoc; exact E5|].
+          apply Forall_app. split; [exact E6 | constructor; [exact U | constructor]].
+        - apply E8; assumption.
+        - apply E8; assumption. }
+      destruct o as [|s|].
+      + apply rec. exact H.
+      + destruct (client_recv verify (v_minlen ver) mykey key gk now s) as [r|e| |] eqn:CR.
+        * apply (base (LGot r)); try congruence; [left; split; congruence|].
+          intros r' E. injection E as <-. exists key, now, s. split; assumption.
+        * apply rec. exact H.
+        * apply (base LPanic); try congruence.
+          right. intros M. rewrite M in CR. destruct (client_recv_total verify mykey key gk now s) as [A _]. congruence.
+        * apply (base LFuel); try congruence.
+          right. intros M. rewrite M in CR. destruct (client_recv_total verify mykey key gk now s) as [_ A]. congruence.
+      + apply (base LHang); try congruence. left; split; congruence.
+  Qed.
+End Round.
+
+Section RoundSpec.
+  Variable verify : bytes -> bytes -> bytes -> bool.
+
+  Lemma sync_round_spec ver mykey st att st' r tr :
+    c_locked st = false -> sync_round verify ver mykey st att = (st', r, tr) ->
+    r <> RBlocked /\
+    Forall (usable (c_servers st)) tr /\
+    (r <> RTrue -> identity st' = identity st /\ c_files st' = c_files st) /\
+    (v_unlock_notfound ver = true -> r = RTrue \/ r = RFalse -> c_locked st' = false) /\
+    (r = RTrue -> exists st1 rr key now s,
+        identity st1 = identity st /\ c_files st1 = c_files st /\ c_locked st1 = false /\
+        usable (c_servers st) key /\
+        client_recv verify (v_minlen ver) mykey key (c_gca st) now s = POk rr /\
+        apply_sync st1 rr = Some st') /\
+    (v_minlen ver = 712 -> smap_wf (c_servers st) -> r <> RPanic /\ r <> RFuel).
+  Proof.
+    intros L H. unfold sync_round in H. rewrite L in H.
+    destruct (sync_loop verify ver mykey (c_gca st) att 5 0 [] [] st) as [[st1 lr] tr1] eqn:E.
+    pose proof (sync_loop_inv verify ver mykey (c_gca st) att 5 0 [] [] st st1 lr tr1 L E)
+      as (I1 & I2 & I3 & I4 & (new & I5 & I6) & I7 & I8).
+    rewrite app_nil_r in I5. subst tr1.
+    assert (TR : Forall (usable (c_servers st)) (rev new)) by (apply Forall_rev; exact I6).
+    destruct lr as [rr| | | | | | |].
+    - (* LGot *)
+      rewrite I4 in H.
+      destruct (I7 rr eq_refl) as (key & now & s & U & CR).
+      destruct (apply_sync st1 rr) as [st2|] eqn:A.
+      + injection H as <- <- <-. repeat split; try congruence; try exact TR.
+        * intros _ _. apply apply_sync_spec in A as (A1 & _). rewrite A1. exact I4.
+        * intros _. exists st1, rr, key, now, s. repeat split; assumption.
+      + injection H as <- <- <-.
+        split; [congruence|]. split; [exact TR|].
+        split; [intros _; split; [exact I1 | exact I2]|].
+        split; [intros _ [C|C]; congruence|].
+        split; [congruence|].
+        intros M Wst. exfalso.
+        assert (Wm : smap_wf (c_servers st1)).
+        { unfold identity in I1. injection I1 as _ _ ->. exact Wst. }
+        rewrite M in CR. apply client_recv_sound in CR as (l0 & l1 & rest & _ & _ & AC).
+        destruct (apply_sync_total st1 rr Wm (acc_shape _ _ _ _ _ _ _ AC)) as [x X]. congruence.
+    - injection H as <- <- <-. split; [congruence|]. split; [exact TR|]. split; [intros _; split; [exact I1 | exact I2]|].
+      split; [intros _ _; exact I4|]. split; [congruence|]. intros _ _; split; congruence.
+    - injection H as <- <- <-. split; [congruence|]. split; [exact TR|]. split; [intros _; split; [exact I1 | exact I2]|].
+      split; [intros _ _; exact I4|]. split; [congruence|]. intros _ _; split; congruence.
+    - injection H as <- <- <-. split; [congruence|]. split; [exact TR|]. split; [intros _; split; [exact I1 | exact I2]|].
+      split; [intros UN _; rewrite I4, UN; reflexivity|]. split; [congruence|]. intros _ _; split; congruence.
+    - injection H as <- <- <-. split; [congruence|]. split; [exact TR|]. split; [intros _; split; [exact I1 | exact I2]|].
+      split; [intros _ [C|C]; congruence|]. split; [congruence|]. intros _ _; split; congruence.
+    - injection H as <- <- <-. split; [congruence|]. split; [exact TR|]. split; [intros _; split; [exact I1 | exact I2]|].
+      split; [intros _ [C|C]; congruence|]. split; [congruence|]. intros M _. apply I8 in M as [M _]. congruence.
+    - congruence.
+    - injection H as <- <- <-. split; [congruence|]. split; [exact TR|]. split; [intros _; split; [exact I1 | exact I2]|].
+      split; [intros _ [C|C]; congruence|]. split; [congruence|]. intros M _. apply I8 in M as [_ M]. congruence.
+  Qed.
+End RoundSpec.
+
+(* ------------------------------------------------------------------ start-up *)
+Lemma sub_of_sub b lo hi x a c y : sub b lo hi = Some x -> lo <= a -> a <= c -> c <= hi ->
+  sub b a c = Some y -> sub x (a - lo) (c - lo) = Some y.
+Proof.
+  intros H1 Ha Hac Hc H2. pose proof (sub_inv _ _ _ _ H1) as (A1 & A2 & A3 & _ & A5).
+  destruct (sub_some x (a - lo) (c - lo)) as [y' [Hy' _]]; try lia.
+  pose proof (sub_sub _ _ _ _ _ _ _ H1 Hy') as S.
+  replace (lo + (a - lo)) with a in S by lia. replace (lo + (c - lo)) with c in S by lia.
+  congruence.
+Qed.
+
+Lemma wf_of_identity a b : identity a = identity b -> cstate_wf b -> cstate_wf a.
+Proof. unfold identity, cstate_wf. intros H. injection H as -> -> ->. tauto. Qed.
+Lemma persisted_of_identity a b : identity a = identity b -> c_files a = c_files b -> persisted b -> persisted a.
+Proof. unfold identity, persisted. intros H F. injection H as -> -> ->. rewrite F. tauto. Qed.
+
+Lemma le_dec_le4 x : (length x <= 4)%nat -> 0 <= le_dec x < 2^32.
+Proof.
+  intros H. pose proof (le_dec_range x) as R.
+  assert (256 ^ Z.of_nat (length x) <= 2^32).
+  { change (2^32) with (256^4). apply Z.pow_le_mono_r; lia. }
+  lia.
+Qed.
+
+Lemma client_load_spec fs ord st : client_load fs ord = LdOk st ->
+  Inv st /\ c_files st = fs /\ c_servers st <> [] /\
+  (c_primary st = blank_key \/ usable (c_servers st) (c_primary st)).
+Proof.
+  unfold client_load. destruct (smap_deserialize (f_map fs)) as [m| |] eqn:D; try discriminate.
+  destruct m as [|kv m]; [discriminate|].
+  destruct (length (f_id fs) <? 4)%nat eqn:E4; [discriminate|]. apply Nat.ltb_ge in E4.
+  remember (firstn 4 (f_id fs)) as f4 eqn:Ef4. remember (pad 32 (f_gca fs)) as g32 eqn:Eg.
+  intros H. assert (E : st = {| c_gca := g32; c_id := le_dec f4; c_servers := kv :: m;
+                               c_primary := pick_primary ord (kv :: m); c_locked := false; c_files := fs |}) by congruence.
+  clear H. subst st.
+  unfold Inv, cstate_wf, persisted; cbn [c_gca c_id c_servers c_primary c_locked c_files f_gca f_id f_map].
+  assert (R4 : 0 <= le_dec f4 < 2^32) by (apply le_dec_le4; subst f4; rewrite firstn_length; lia).
+  assert (Wm : smap_wf (kv :: m)) by (apply deserialize_wf in D; exact D).
+  split; [|split; [reflexivity | split; [discriminate|]]].
+  - split; [split; [subst g32; apply pad_length | split; [exact R4 | exact Wm]]|].
+    split; [|reflexivity]. subst g32 f4. repeat split; try assumption.
+  - unfold pick_primary. destruct (find (admissible [] (kv :: m)) ord) as [k|] eqn:F; [right | left; reflexivity].
+    exact (select_usable ord [] (kv :: m) k F).
+Qed.
+
+Lemma load_of_persisted st ord : persisted st -> c_servers st <> [] ->
+  exists st', client_load (c_files st) ord = LdOk st' /\ identity st' = identity st.
+Proof.
+  intros (P1 & P2 & P3 & P4) NE. unfold client_load. rewrite P4.
+  destruct (c_servers st) as [|kv m] eqn:Es; [congruence|].
+  replace (length (f_id (c_files st)) <? 4)%nat with false by (symmetry; apply Nat.ltb_ge; lia).
+  eexists; split; [reflexivity|]. unfold identity; cbn [c_gca c_id c_servers c_primary c_locked c_files f_gca f_id f_map]. rewrite P1, P3, Es. reflexivity.
+Qed.
+Lemma load_refuses_empty st ord : persisted st -> c_servers st = [] -> client_load (c_files st) ord = LdErr.
+Proof. intros (_ & _ & _ & P4) E. unfold client_load. rewrite P4, E. reflexivity. Qed.
+
+(* ------------------------------------------------------------------ client histories *)
+Section Histories.
+  Variable verify : bytes -> bytes -> bytes -> bool.
+
+  Lemma accepted_fields mykey skey gkey now b r : accepted verify mykey skey gkey now b r ->
+    length (p_newgca r) = 32%nat /\ 0 <= p_newid r < 2^32 /\ Forall aserver_wf (p_servers r).
+  Proof.
+    intros A. split; [|split; [|exact (acc_shape _ _ _ _ _ _ _ A)]].
+    - pose proof (acc_newgca _ _ _ _ _ _ _ A) as H. apply sub_inv in H as (_ & _ & _ & _ & L). rewrite L. reflexivity.
+    - destruct (acc_newid _ _ _ _ _ _ _ A) as (nid & H & ->). apply sub_inv in H as (_ & _ & _ & _ & L).
+      apply le_dec_le4. rewrite L. cbn. lia.
+  Qed.
+
+  Lemma cstep_spec mykey st op st' : Inv st -> cstep verify v_fixed mykey st op = Some st' ->
+    Inv st' /\ step_effect verify mykey st st'.
+  Proof.
+    intros (W & P & L) H. destruct op as [att|ord]; cbn [cstep] in H.
+    - destruct (sync_round verify v_fixed mykey st att) as [[st2 r] tr] eqn:E.
+      pose proof (sync_round_spec verify v_fixed mykey st att st2 r tr L E) as (S1 & S2 & S3 & S4 & S5 & S6).
+      destruct r; try discriminate; injection H as <-.
+      + (* RTrue *)
+        destruct (S5 eq_refl) as (st1 & rr & key & now & s & I1 & F1 & L1 & U & CR & A).
+        cbn [v_minlen v_fixed] in CR.
+        apply client_recv_sound in CR as (l0 & l1 & rest & _ & _ & AC).
+        destruct (accepted_fields _ _ _ _ _ _ AC) as (Ln & Rn & Sh).
+        pose proof (wf_of_identity st1 st I1 W) as W1.
+        pose proof (persisted_of_identity st1 st I1 F1 P) as P1.
+        split.
+        { split; [eapply apply_sync_wf; eassumption|]. split; [eapply persisted_after; eassumption|].
+          apply S4; [reflexivity | left; reflexivity]. }
+        unfold identity in I1. injection I1 as G1 D1 M1.
+        apply apply_sync_spec in A as (_ & _ & _ & [(Mg & G & I & Sv & _)|(Mg & G & I & Sv & _)]).
+        * (* migration *)
+          unfold is_migration in Mg. apply andb_prop in Mg as [Ne Nb].
+          apply negb_true_iff in Ne, Nb. apply bytes_eqb_neq in Ne.
+          destruct (acc_migration _ _ _ _ _ _ _ AC Nb) as (mb & gsig & Hmb & Hgs & V).
+          destruct (acc_newid _ _ _ _ _ _ _ AC) as (nid & Hnid & En).
+          pose proof (acc_newgca _ _ _ _ _ _ _ AC) as Hng.
+          pose proof (acc_len _ _ _ _ _ _ _ AC) as Hlen.
+          apply (EffMigrate verify mykey st st2 mb gsig nid (p_servers rr)).
+          -- exact V.
+          -- rewrite G. replace 0 with (540 - 540) by lia. replace 32 with (572 - 540) by lia.
+             eapply sub_of_sub; [exact Hmb | lia | lia | lia | exact Hng].
+          -- replace 32 with (572 - 540) by lia. replace 36 with (576 - 540) by lia.
+             eapply sub_of_sub; [exact Hmb | lia | lia | lia | exact Hnid].
+          -- rewrite I. exact En.
+          -- rewrite G, <- G1. exact Ne.
+          -- rewrite G. exact Nb.
+          -- rewrite G. pose proof (acc_servers _ _ _ _ _ _ _ AC) as SV. unfold who_signs in SV. rewrite Nb in SV. exact SV.
+          -- exact Sv.
+        * (* merge *)
+          assert (Who : who_signs (c_gca st) (p_newgca rr) = c_gca st).
+          { unfold who_signs. destruct (is_blank (p_newgca rr)) eqn:B; [reflexivity|].
+            unfold is_migration in Mg. rewrite B in Mg. cbn [negb andb] in Mg. rewrite andb_true_r in Mg.
+            apply negb_false_iff, bytes_eqb_eq in Mg. congruence. }
+          rewrite M1 in Sv.
+          apply EffKeep; try congruence.
+          -- rewrite Sv. apply merge_ban_le.
+          -- rewrite Sv. apply merge_entry_keep.
+          -- intros k g Hg. rewrite Sv in Hg. apply merge_provenance in Hg as [Hg|(s0 & In0 & K0 & G0)]; [left; exact Hg|].
+             right. exists s0. repeat split; try assumption.
+             pose proof (acc_servers _ _ _ _ _ _ _ AC) as SV. rewrite Who in SV. rewrite Forall_forall in SV. apply SV. exact In0.
+      + (* RFalse *)
+        destruct (S3 ltac:(congruence)) as [I1 F1].
+        split.
+        { split; [exact (wf_of_identity _ _ I1 W)|]. split; [exact (persisted_of_identity _ _ I1 F1 P)|].
+          apply S4; [reflexivity | right; reflexivity]. }
+        unfold identity in I1. injection I1 as G1 D1 M1.
+        apply EffKeep; try assumption; rewrite M1; [apply ban_le_refl | apply entry_keep_refl | intros k g Hg; left; exact Hg].
+    - destruct (client_load (c_files st) ord) as [st2| |] eqn:E; try discriminate. injection H as <-.
+      pose proof (client_load_spec _ _ _ E) as (I2 & _ & NE & _).
+      split; [exact I2|].
+      destruct (c_servers st) as [|kv m] eqn:Es.
+      { rewrite (load_refuses_empty st ord P Es) in E. discriminate. }
+      destruct (load_of_persisted st ord P ltac:(congruence)) as (st3 & E3 & I3).
+      rewrite E in E3. injection E3 as <-. unfold identity in I3. injection I3 as G1 D1 M1.
+      apply EffKeep; try assumption; rewrite M1; [apply ban_le_refl | apply entry_keep_refl | intros k g Hg; left; exact Hg].
+  Qed.
+End Histories.
+
+Section Sequences.
+  Variable verify : bytes -> bytes -> bytes -> bool.
+
+  Lemma crun_inv mykey : forall ops st st', Inv st -> crun verify v_fixed mykey st ops = Some st' -> Inv st'.
+  Proof.
+    induction ops as [|op ops IH]; intros st st' I H; cbn [crun] in H.
+    - injection H as <-. exact I.
+    - destruct (cstep verify v_fixed mykey st op) as [st1|] eqn:E; [|discriminate].
+      apply (IH st1); [|exact H]. exact (proj1 (cstep_spec verify mykey st op st1 I E)).
+  Qed.
+
+  (* every step of every history that starts in a loaded state *)
+  Lemma every_step mykey st0 ops st op st' : Inv st0 ->
+    crun verify v_fixed mykey st0 ops = Some st -> cstep verify v_fixed mykey st op = Some st' ->
+    Inv st' /\ step_effect verify mykey st st'.
+  Proof. intros I R S. apply (cstep_spec verify mykey st op st'); [exact (crun_inv mykey ops st0 st I R) | exact S]. Qed.
+
+  Lemma same_gca_monotone mykey st ops st' : Inv st -> same_gca_run verify mykey st ops st' ->
+    ban_le (c_servers st) (c_servers st') /\ entry_keep (c_servers st) (c_servers st') /\ c_id st' = c_id st.
+  Proof.
+    intros I R. induction R as [st|st op st1 ops st2 S G R IH].
+    - split; [apply ban_le_refl | split; [apply entry_keep_refl | reflexivity]].
+    - destruct (cstep_spec verify mykey st op st1 I S) as [I1 Eff].
+      destruct (IH I1) as (B & K & D).
+      destruct Eff as [_ D1 B1 K1 _ | mb gsig nid l _ _ _ _ Ne _ _ _]; [|congruence].
+      split; [eapply ban_le_trans; eassumption | split; [eapply entry_keep_trans; eassumption | congruence]].
+  Qed.
+End Sequences.
+
+(* ------------------------------------------------------------------ sync trigger *)
+Lemma tick_step_fires ticks ok : 59 <= ticks -> tick_step ticks ok = (0, true).
+Proof. intros H. unfold tick_step. replace (60 <=? ticks + 1) with true by (symmetry; apply Z.leb_le; lia). reflexivity. Qed.
+Lemma tick_step_bound ticks ok t f : 0 <= ticks -> tick_step ticks ok = (t, f) ->
+  0 <= t /\ (f = false -> t = ticks + 1 /\ t < 60).
+Proof.
+  unfold tick_step. intros H. destruct ((60 <=? ticks + 1) || (negb ok && ((ticks + 1) mod 4 =? 3))) eqn:E.
+  - intros X; injection X as <- <-. split; [lia | discriminate].
+  - intros X; injection X as <- <-. apply orb_false_iff in E as [E _]. apply Z.leb_gt in E. split; [lia | intros _; lia].
+Qed.
+(* from any tick count, whatever the status values, a sync is launched within 60 iterations *)
+Lemma ticks_run_fires : forall oks ticks, 0 <= ticks -> (Z.to_nat (60 - ticks) <= length oks)%nat -> ticks < 60 ->
+  snd (ticks_run ticks oks) = true.
+Proof.
+  induction oks as [|ok oks IH]; intros ticks H0 HL H60.
+  - cbn [length] in HL. lia.
+  - cbn [ticks_run]. destruct (tick_step ticks ok) as [t f] eqn:E. destruct f; [reflexivity|].
+    destruct (tick_step_bound ticks ok t false H0 E) as [T0 T1]. destruct (T1 eq_refl) as [-> T60].
+    apply IH; [lia | cbn [length] in HL; lia | lia].
+Qed.
+Lemma ticks_run_60 ticks oks : 0 <= ticks -> length oks = 60%nat -> snd (ticks_run ticks oks) = true.
+Proof.
+  intros H0 HL. destruct (Z.lt_ge_cases ticks 60) as [Lt|Ge].
+  - apply ticks_run_fires; [exact H0 | rewrite HL; lia | exact Lt].
+  - destruct oks as [|ok oks]; [discriminate|]. cbn [ticks_run]. rewrite tick_step_fires by lia. reflexivity.
+Qed.
+(* the counter never leaves 0..59 *)
+Lemma tick_step_range ticks ok : 0 <= ticks < 60 -> 0 <= fst (tick_step ticks ok) < 60.
+Proof.
+  intros H. unfold tick_step.
+  destruct ((60 <=? ticks + 1) || (negb ok && ((ticks + 1) mod 4 =? 3))) eqn:E; cbn [fst]; [lia|].
+  apply orb_false_iff in E as [E _]. apply Z.leb_gt in E. lia.
+Qed.
+
+(* ------------------------------------------------------------------ the bitfield *)
+Lemma bits_val_range l : 0 <= bits_val l < 2 ^ Z.of_nat (length l).
+Proof.
+  induction l as [|b l IH]; cbn [bits_val length]; [cbn; lia|].
+  rewrite Nat2Z.inj_succ, Z.pow_succ_r by lia. destruct b; cbn [Z.b2z]; lia.
+Qed.
+Lemma bits_val_testbit : forall l k, Z.testbit (bits_val l) (Z.of_nat k) = nth k l false.
+Proof.
+  induction l as [|b l IH]; intros k; cbn [bits_val].
+  - rewrite Z.testbit_0_l. destruct k; reflexivity.
+  - replace (Z.b2z b + 2 * bits_val l) with (2 * bits_val l + Z.b2z b) by lia.
+    destruct k as [|k]; cbn [nth].
+    + apply Z.testbit_0_r.
+    + rewrite Nat2Z.inj_succ. rewrite Z.testbit_succ_r by lia. apply IH.
+Qed.
+Lemma nth_firstn_lt {A} (d : A) : forall n i l, (i < n)%nat -> nth i (firstn n l) d = nth i l d.
+Proof.
+  induction n as [|n IH]; intros i l H; [lia|].
+  destruct l as [|x l]; [destruct i; reflexivity|]. destruct i as [|i]; cbn [firstn nth]; [reflexivity|].
+  apply IH. lia.
+Qed.
+Lemma nth_skipn_add {A} (d : A) : forall n i l, nth i (skipn n l) d = nth (n + i) l d.
+Proof.
+  induction n as [|n IH]; intros i l; [reflexivity|].
+  destruct l as [|x l]; [destruct i; reflexivity|]. cbn [skipn Nat.add nth]. apply IH.
+Qed.
+
+Lemma div8 j : ((j + 8) / 8 = S (j / 8))%nat /\ ((j + 8) mod 8 = j mod 8)%nat.
+Proof.
+  replace (j + 8)%nat with (j + 1 * 8)%nat by lia. split.
+  - rewrite Nat.div_add by lia. lia.
+  - apply Nat.mod_add. lia.
+Qed.
+Lemma test_bit_pack : forall n l i, (i < 8 * n)%nat -> test_bit (pack_bits n l) i = Some (nth i l false).
+Proof.
+  induction n as [|n IH]; intros l i H; [lia|].
+  cbn [pack_bits]. unfold test_bit.
+  destruct (Nat.lt_ge_cases i 8) as [Lt|Ge].
+  - rewrite Nat.div_small, Nat.mod_small by exact Lt. cbn [nth_error]. f_equal.
+    rewrite b2z_z2b.
+    pose proof (bits_val_range (firstn 8 l)) as R.
+    assert (2 ^ Z.of_nat (length (firstn 8 l)) <= 256).
+    { change 256 with (2^8). apply Z.pow_le_mono_r; [lia|]. rewrite firstn_length. lia. }
+    rewrite Z.mod_small by lia. rewrite bits_val_testbit. apply nth_firstn_lt. exact Lt.
+  - destruct (div8 (i - 8)) as [D M]. replace (i - 8 + 8)%nat with i in D, M by lia.
+    rewrite D, M. cbn [nth_error].
+    specialize (IH (skipn 8 l) (i - 8)%nat ltac:(lia)). unfold test_bit in IH. rewrite IH.
+    rewrite nth_skipn_add. f_equal. f_equal. lia.
+Qed.
+
+(* bit i of the reply's bitfield is set iff slot offset+i holds a record (PowerOutput > 0; banned slots hold 1) *)
+Lemma bitfield_spec powers i : length powers = 4032%nat -> (i < 4032)%nat ->
+  test_bit (bitfield_of powers) i = Some (has_record (nth i powers 0)).
+Proof.
+  intros L H. unfold bitfield_of. rewrite test_bit_pack by lia.
+  f_equal. change false with (has_record 0). apply map_nth.
+Qed.
+Lemma bitfield_length powers : length (bitfield_of powers) = 504%nat.
+Proof.
+  unfold bitfield_of. generalize (map has_record powers). generalize 504%nat.
+  induction n as [|n IH]; intros l; cbn [pack_bits length]; [reflexivity | rewrite IH; reflexivity].
+Qed.
+
+(* ------------------------------------------------------------------ the genuine reply parses to the server's data *)
+Lemma pad_app_exact n (a x : bytes) : length a = n -> pad n (a ++ x) = a.
+Proof. intros L. unfold pad. rewrite <- app_assoc. apply firstn_app_len. exact L. Qed.
+
+Lemma as_serialize_length s : aserver_wf s -> length (as_serialize s) = (104 + length (as_loc s))%nat.
+Proof.
+  intros (Lk & _ & _ & _ & _ & Ls). unfold as_serialize, as_body.
+  rewrite !app_length, !pad_length, !le_enc_length. cbn [length]. lia.
+Qed.
+
+Lemma parse_servers_step f pre s tail acc e : aserver_wf s ->
+  Z.of_nat (length pre + length (as_serialize s)) <= e ->
+  parse_servers (S f) (pre ++ as_serialize s ++ tail) (Z.of_nat (length pre)) e acc =
+  parse_servers f (pre ++ as_serialize s ++ tail) (Z.of_nat (length pre + length (as_serialize s))) e (s :: acc).
+Proof.
+  intros W He. pose proof (as_serialize_length s W) as LS.
+  destruct W as (Lk & Ll & Hh & Ht & Hu & Lsg).
+  remember (as_key s) as k eqn:Ek. remember (as_loc s) as loc eqn:Eloc. remember (as_sig s) as sg eqn:Esg.
+  remember (le_enc 2 (as_http s)) as H2 eqn:EH2. remember (le_enc 2 (as_tcp s)) as T2 eqn:ET2.
+  remember (le_enc 2 (as_udp s)) as U2 eqn:EU2.
+  assert (LH : length H2 = 2%nat) by (subst H2; apply le_enc_length).
+  assert (LT : length T2 = 2%nat) by (subst T2; apply le_enc_length).
+  assert (LU : length U2 = 2%nat) by (subst U2; apply le_enc_length).
+  remember (bool_byte (as_banned s)) as bb eqn:Ebb.
+  remember (z2b (Z.of_nat (length loc))) as ll eqn:Ell.
+  assert (Es : as_serialize s = k ++ [bb] ++ [ll] ++ loc ++ H2 ++ T2 ++ U2 ++ sg).
+  { unfold as_serialize, as_body. rewrite <- Ek, <- Eloc, <- Esg, <- EH2, <- ET2, <- EU2, <- Ebb, <- Ell.
+    rewrite (pad_exact 32 k Lk), (pad_exact 64 sg Lsg). rewrite <- !app_assoc. reflexivity. }
+  remember (pre ++ as_serialize s ++ tail) as b eqn:Eb.
+  assert (Eb' : b = pre ++ k ++ [bb] ++ [ll] ++ loc ++ H2 ++ T2 ++ U2 ++ sg ++ tail).
+  { rewrite Eb, Es. rewrite <- !app_assoc. reflexivity. }
+  assert (Lb : Z.of_nat (length b) = Z.of_nat (length pre) + 104 + Z.of_nat (length loc) + Z.of_nat (length tail)).
+  { rewrite Eb, !app_length, LS. lia. }
+  set (i := Z.of_nat (length pre)) in *.
+  assert (EL : b2z ll = Z.of_nat (length loc)).
+  { rewrite Ell, b2z_z2b. apply Z.mod_small. lia. }
+  cbn [parse_servers].
+  replace (i <? e) with true by (symmetry; apply Z.ltb_lt; lia).
+  replace (e <? i + 34) with false by (symmetry; apply Z.ltb_ge; lia).
+  assert (Q0 : sub b i (i + 32) = Some k).
+  { apply (sub_eq b pre k ([bb] ++ [ll] ++ loc ++ H2 ++ T2 ++ U2 ++ sg ++ tail)); [exact Eb' | reflexivity | lia]. }
+  assert (Q1 : idx b (i + 32) = Some bb).
+  { apply (idx_eq b (pre ++ k) bb ([ll] ++ loc ++ H2 ++ T2 ++ U2 ++ sg ++ tail)).
+    - rewrite Eb'. rewrite <- !app_assoc. reflexivity.
+    - rewrite app_length. lia. }
+  assert (Q2 : idx b (i + 33) = Some ll).
+  { apply (idx_eq b (pre ++ k ++ [bb]) ll (loc ++ H2 ++ T2 ++ U2 ++ sg ++ tail)).
+    - rewrite Eb'. rewrite <- !app_assoc. reflexivity.
+    - rewrite !app_length. cbn [length]. lia. }
+  rewrite Q0, Q1, Q2.
+  cbv zeta. rewrite EL.
+  replace (e <? i + 34 + Z.of_nat (length loc) + 70) with false by (symmetry; apply Z.ltb_ge; lia).
+  assert (Q3 : sub b (i + 34) (i + 34 + Z.of_nat (length loc)) = Some loc).
+  { apply (sub_eq b (pre ++ k ++ [bb] ++ [ll]) loc (H2 ++ T2 ++ U2 ++ sg ++ tail)).
+    - rewrite Eb'. rewrite <- !app_assoc. reflexivity.
+    - rewrite !app_length. cbn [length]. lia.
+    - reflexivity. }
+  assert (Q4 : sub b (i + 34 + Z.of_nat (length loc)) (i + 34 + Z.of_nat (length loc) + 2) = Some H2).
+  { apply (sub_eq b (pre ++ k ++ [bb] ++ [ll] ++ loc) H2 (T2 ++ U2 ++ sg ++ tail)).
+    - rewrite Eb'. rewrite <- !app_assoc. reflexivity.
+    - rewrite !app_length. cbn [length]. lia.
+    - lia. }
+  assert (Q5 : sub b (i + 34 + Z.of_nat (length loc) + 2) (i + 34 + Z.of_nat (length loc) + 4) = Some T2).
+  { apply (sub_eq b (pre ++ k ++ [bb] ++ [ll] ++ loc ++ H2) T2 (U2 ++ sg ++ tail)).
+    - rewrite Eb'. rewrite <- !app_assoc. reflexivity.
+    - rewrite !app_length. cbn [length]. lia.
+    - lia. }
+  assert (Q6 : sub b (i + 34 + Z.of_nat (length loc) + 4) (i + 34 + Z.of_nat (length loc) + 6) = Some U2).
+  { apply (sub_eq b (pre ++ k ++ [bb] ++ [ll] ++ loc ++ H2 ++ T2) U2 (sg ++ tail)).
+    - rewrite Eb'. rewrite <- !app_assoc. reflexivity.
+    - rewrite !app_length. cbn [length]. lia.
+    - lia. }
+  assert (Q7 : sub b (i + 34 + Z.of_nat (length loc) + 6) (Z.of_nat (length b)) = Some (sg ++ tail)).
+  { apply (sub_eq b (pre ++ k ++ [bb] ++ [ll] ++ loc ++ H2 ++ T2 ++ U2) (sg ++ tail) []).
+    - rewrite Eb'. rewrite <- !app_assoc. rewrite app_nil_r. reflexivity.
+    - rewrite !app_length. cbn [length]. lia.
+    - rewrite app_length. lia. }
+  rewrite Q3, Q4, Q5, Q6, Q7.
+  rewrite (pad_app_exact 64 sg tail Lsg).
+  replace (i + 34 + Z.of_nat (length loc) + 70) with (Z.of_nat (length pre + length (as_serialize s))) by (rewrite LS; lia).
+  f_equal. subst bb H2 T2 U2. rewrite bool_byte_dec, !le_dec_enc2 by assumption.
+  subst k loc sg. destruct s; reflexivity.
+Qed.
+
+Definition ser_list (l : list aserver) : bytes := List.concat (map as_serialize l).
+
+Lemma ser_list_length l : Forall aserver_wf l -> (length l <= length (ser_list l))%nat.
+Proof.
+  induction 1 as [|s l W F IH]; [cbn; lia|].
+  unfold ser_list in *. cbn [map List.concat length]. rewrite app_length, (as_serialize_length s W). lia.
+Qed.
+
+Lemma parse_servers_fwd : forall l pre post acc fuel e, Forall aserver_wf l -> (length l < fuel)%nat ->
+  e = Z.of_nat (length pre + length (ser_list l)) ->
+  parse_servers fuel (pre ++ ser_list l ++ post) (Z.of_nat (length pre)) e acc = SOk (rev acc ++ l).
+Proof.
+  induction l as [|s l IH]; intros pre post acc fuel e F Hf He.
+  - destruct fuel as [|f]; [cbn in Hf; lia|]. cbn [parse_servers].
+    replace (Z.of_nat (length pre) <? e) with false by (symmetry; apply Z.ltb_ge; subst e; cbn; lia).
+    rewrite app_nil_r. reflexivity.
+  - inversion F as [|? ? W F']; subst.
+    destruct fuel as [|f]; [cbn in Hf; lia|].
+    unfold ser_list. cbn [map List.concat]. fold (ser_list l). rewrite <- app_assoc.
+    rewrite parse_servers_step; [|exact W | rewrite app_length; lia].
+    replace (pre ++ as_serialize s ++ ser_list l ++ post) with ((pre ++ as_serialize s) ++ ser_list l ++ post)
+      by (rewrite <- app_assoc; reflexivity).
+    replace (length pre + length (as_serialize s))%nat with (length (pre ++ as_serialize s)) by apply app_length.
+    rewrite IH; [cbn [rev]; rewrite <- app_assoc; reflexivity | exact F' | cbn [length] in Hf; lia |].
+    rewrite !app_length. lia.
+Qed.
+
+Section Agree.
+  Variable verify : bytes -> bytes -> bytes -> bool.
+
+  Lemma parse_parts K off BF NG nid SL GS tm SG mykey skey gkey now :
+    length K = 32%nat -> 0 <= off < 2^32 -> length BF = 504%nat -> length NG = 32%nat -> 0 <= nid < 2^32 ->
+    Forall aserver_wf SL -> length GS = 64%nat -> length SG = 64%nat ->
+    let content := K ++ le_enc 4 off ++ BF ++ NG ++ le_enc 4 nid ++ ser_list SL ++ GS ++ le_enc 8 tm in
+    Z.of_nat (length (content ++ SG)) < 65536 ->
+    verify skey content SG = true -> fresh now (tm mod 2^64) = true -> K = mykey ->
+    (is_blank NG = false ->
+       verify gkey (ascii_bytes "EquipmentMigration" ++ K ++ NG ++ le_enc 4 nid ++ ser_list SL) GS = true) ->
+    Forall (fun s => verify (who_signs gkey NG) (as_signing_bytes s) (as_sig s) = true) SL ->
+    parse_reply verify mykey skey gkey now (content ++ SG) =
+      POk {| p_offset := off; p_bitfield := BF; p_newgca := NG; p_newid := nid; p_servers := SL |}.
+  Proof.
+    intros LK Ro LBF LNG Rn WSL LGS LSG content Hlen Vouter Hfresh EK Vmig Vsrv.
+    remember (le_enc 4 off) as O4 eqn:EO4. remember (le_enc 4 nid) as N4 eqn:EN4.
+    remember (le_enc 8 tm) as T8 eqn:ET8. remember (ser_list SL) as S eqn:ES.
+    assert (LO4 : length O4 = 4%nat) by (subst O4; apply le_enc_length).
+    assert (LN4 : length N4 = 4%nat) by (subst N4; apply le_enc_length).
+    assert (LT8 : length T8 = 8%nat) by (subst T8; apply le_enc_length).
+    remember (content ++ SG) as b eqn:Eb.
+    assert (Eb' : b = K ++ O4 ++ BF ++ NG ++ N4 ++ S ++ GS ++ T8 ++ SG).
+    { rewrite Eb. unfold content. rewrite <- !app_assoc. reflexivity. }
+    assert (Lb : Z.of_nat (length b) = 712 + Z.of_nat (length S)).
+    { rewrite Eb', !app_length, LK, LO4, LBF, LNG, LN4, LGS, LT8, LSG. lia. }
+    unfold parse_reply. set (n := Z.of_nat (length b)) in *.
+    rewrite !u16_small by lia.
+    assert (Q1 : sub b (n - 72) n = Some (T8 ++ SG)).
+    { apply (sub_eq b (K ++ O4 ++ BF ++ NG ++ N4 ++ S ++ GS) (T8 ++ SG) []).
+      - rewrite Eb'. rewrite <- !app_assoc. rewrite app_nil_r. reflexivity.
+      - rewrite !app_length. lia.
+      - rewrite !app_length. lia. }
+    assert (Q2 : sub (T8 ++ SG) 0 8 = Some T8).
+    { apply (sub_eq (T8 ++ SG) [] T8 SG); [reflexivity | reflexivity | lia]. }
+    rewrite Q1, Q2. cbv zeta.
+    assert (ET : le_dec T8 = tm mod 2^64).
+    { subst T8. rewrite le_dec_enc. reflexivity. }
+    rewrite ET. unfold fresh in Hfresh. apply negb_true_iff in Hfresh. rewrite Hfresh.
+    assert (Q3 : sub b (n - 64) n = Some SG).
+    { apply (sub_eq b content SG []).
+      - rewrite Eb, app_nil_r. reflexivity.
+      - unfold n. rewrite Eb, app_length. lia.
+      - lia. }
+    assert (Q4 : sub b 0 (n - 64) = Some content).
+    { apply (sub_eq b [] content SG); [exact Eb | reflexivity |]. unfold n. rewrite Eb, app_length. cbn [length]. lia. }
+    rewrite Q3, Q4. rewrite (pad_exact 64 SG LSG), Vouter. cbn [negb].
+    assert (Q5 : sub b 0 32 = Some K).
+    { apply (sub_eq b [] K (O4 ++ BF ++ NG ++ N4 ++ S ++ GS ++ T8 ++ SG)); [exact Eb' | reflexivity | cbn [length]; lia]. }
+    assert (Q6 : sub b 32 36 = Some O4).
+    { apply (sub_eq b K O4 (BF ++ NG ++ N4 ++ S ++ GS ++ T8 ++ SG)); [exact Eb' | lia | lia]. }
+    assert (Q7 : sub b 36 540 = Some BF).
+    { apply (sub_eq b (K ++ O4) BF (NG ++ N4 ++ S ++ GS ++ T8 ++ SG)).
+      - rewrite Eb'. rewrite <- !app_assoc. reflexivity.
+      - rewrite app_length. lia.
+      - lia. }
+    assert (Q8 : sub b 540 572 = Some NG).
+    { apply (sub_eq b (K ++ O4 ++ BF) NG (N4 ++ S ++ GS ++ T8 ++ SG)).
+      - rewrite Eb'. rewrite <- !app_assoc. reflexivity.
+      - rewrite !app_length. lia.
+      - lia. }
+    assert (Q9 : sub b 572 576 = Some N4).
+    { apply (sub_eq b (K ++ O4 ++ BF ++ NG) N4 (S ++ GS ++ T8 ++ SG)).
+      - rewrite Eb'. rewrite <- !app_assoc. reflexivity.
+      - rewrite !app_length. lia.
+      - lia. }
+    assert (Q10 : sub b (n - 136) (n - 72) = Some GS).
+    { apply (sub_eq b (K ++ O4 ++ BF ++ NG ++ N4 ++ S) GS (T8 ++ SG)).
+      - rewrite Eb'. rewrite <- !app_assoc. reflexivity.
+      - rewrite !app_length. lia.
+      - lia. }
+    rewrite Q5, Q6, Q7, Q8, Q9, Q10.
+    rewrite EK, bytes_eqb_refl. cbn [negb].
+    assert (Q11 : sub b 540 (n - 136) = Some (NG ++ N4 ++ S)).
+    { apply (sub_eq b (K ++ O4 ++ BF) (NG ++ N4 ++ S) (GS ++ T8 ++ SG)).
+      - rewrite Eb'. rewrite <- !app_assoc. reflexivity.
+      - rewrite !app_length. lia.
+      - rewrite !app_length. lia. }
+    rewrite Q11. rewrite (pad_exact 64 GS LGS).
+    assert (Emig : negb (is_blank NG) && negb (verify gkey (ascii_bytes "EquipmentMigration" ++ mykey ++ NG ++ N4 ++ S) GS) = false).
+    { destruct (is_blank NG) eqn:B; [reflexivity|]. rewrite <- EK. rewrite (Vmig eq_refl). reflexivity. }
+    rewrite Emig.
+    assert (Q12 : parse_servers (Datatypes.S (length b)) b 576 (n - 136) [] = SOk SL).
+    { assert (Hfuel : (length SL < Datatypes.S (length b))%nat).
+      { pose proof (ser_list_length SL WSL). subst S. lia. }
+      assert (L576 : Z.of_nat (length (K ++ O4 ++ BF ++ NG ++ N4)) = 576) by (rewrite !app_length; lia).
+      assert (He : n - 136 = Z.of_nat (length (K ++ O4 ++ BF ++ NG ++ N4) + length (ser_list SL))).
+      { rewrite Nat2Z.inj_add, L576, <- ES. lia. }
+      pose proof (parse_servers_fwd SL (K ++ O4 ++ BF ++ NG ++ N4) (GS ++ T8 ++ SG) [] (Datatypes.S (length b)) (n - 136) WSL Hfuel He) as PF.
+      rewrite L576 in PF. rewrite <- ES in PF.
+      replace ((K ++ O4 ++ BF ++ NG ++ N4) ++ S ++ GS ++ T8 ++ SG) with b in PF by (rewrite Eb', <- !app_assoc; reflexivity).
+      exact PF. }
+    rewrite Q12.
+    assert (Q13 : forallb (fun s => verify (if is_blank NG then gkey else NG) (as_signing_bytes s) (as_sig s)) SL = true).
+    { apply forallb_forall. rewrite Forall_forall in Vsrv. exact Vsrv. }
+    rewrite Q13. subst O4 N4. rewrite !le_dec_enc_small by (change (256 ^ Z.of_nat 4) with (2^32); assumption).
+    reflexivity.
+  Qed.
+End Agree.
+
+Section AgreeView.
+  Variable verify : bytes -> bytes -> bytes -> bool.
+
+  Lemma client_recv_framed minlen mykey skey gkey now b extra :
+    minlen <= Z.of_nat (length b) < 65536 ->
+    client_recv verify minlen mykey skey gkey now (le_enc 2 (Z.of_nat (length b)) ++ b ++ extra) =
+    parse_reply verify mykey skey gkey now b.
+  Proof.
+    intros H. cbn [le_enc app]. unfold client_recv.
+    assert (E : le_dec [z2b (Z.of_nat (length b)); z2b (Z.of_nat (length b) / 256)] = Z.of_nat (length b)).
+    { change [z2b (Z.of_nat (length b)); z2b (Z.of_nat (length b) / 256)] with (le_enc 2 (Z.of_nat (length b))).
+      apply le_dec_enc_small. change (256 ^ Z.of_nat 2) with 65536. lia. }
+    rewrite E.
+    replace (Z.of_nat (length b) <? minlen) with false by (symmetry; apply Z.ltb_ge; lia).
+    replace (Z.of_nat (length (b ++ extra)) <? Z.of_nat (length b)) with false
+      by (symmetry; apply Z.ltb_ge; rewrite app_length; lia).
+    rewrite Nat2Z.id, firstn_app_exact. reflexivity.
+  Qed.
+
+  Lemma reply_parses v sg mykey skey gkey now extra :
+    sview_wf v -> length sg = 64%nat ->
+    Z.of_nat (length (reply_body v ++ sg)) < 65536 ->
+    mykey = sv_key v ->
+    verify skey (reply_body v) sg = true ->
+    fresh now (sv_time v mod 2^64) = true ->
+    view_signed verify gkey v ->
+    client_recv verify 712 mykey skey gkey now (sync_reply v sg ++ extra) = POk (view_result v).
+  Proof.
+    intros (LK & Ro & LP & Wm) Lsg Hlen EK Vouter Hfresh Vs.
+    unfold sync_reply. rewrite (pad_exact 64 sg Lsg). rewrite <- app_assoc.
+    assert (P : parse_reply verify mykey skey gkey now (reply_body v ++ sg) = POk (view_result v) /\
+                712 <= Z.of_nat (length (reply_body v ++ sg))).
+    { unfold view_result, view_signed in *.
+      destruct (sv_mig v) as [m|] eqn:Em.
+      - destruct Wm as ((Le & Lg & Rid & Ws & Lms) & Eeq). destruct Vs as [Vm Vl].
+        assert (Ec : reply_body v = sv_key v ++ le_enc 4 (sv_offset v) ++ bitfield_of (sv_powers v) ++ mg_newgca m ++
+                       le_enc 4 (mg_newid m) ++ ser_list (mg_servers m) ++ mg_sig m ++ le_enc 8 (sv_time v)).
+        { unfold reply_body, reply_tail. rewrite Em. unfold mg_tail.
+          rewrite (pad_exact 32 _ LK), (pad_exact 32 _ Lg), (pad_exact 64 _ Lms). rewrite <- !app_assoc. reflexivity. }
+        rewrite Ec in *.
+        split.
+        + apply parse_parts; try assumption; try (apply bitfield_length); try (symmetry; exact EK).
+          intros B. specialize (Vm B). unfold mg_signing_bytes, mg_body, mg_tail in Vm.
+          rewrite Eeq, (pad_exact 32 _ LK), (pad_exact 32 _ Lg) in Vm. fold (ser_list (mg_servers m)) in Vm.
+          rewrite <- ?app_assoc in Vm. exact Vm.
+        + rewrite !app_length, !le_enc_length, bitfield_length, LK, Lg, Lms, Lsg. lia.
+      - assert (Ec : reply_body v = sv_key v ++ le_enc 4 (sv_offset v) ++ bitfield_of (sv_powers v) ++ zeros 32 ++
+                       le_enc 4 0 ++ ser_list (sv_servers v) ++ zeros 64 ++ le_enc 8 (sv_time v)).
+        { unfold reply_body, reply_tail. rewrite Em. rewrite (pad_exact 32 _ LK).
+          change (zeros 36) with (zeros 32 ++ le_enc 4 0). rewrite <- !app_assoc. reflexivity. }
+        rewrite Ec in *.
+        split.
+        + apply parse_parts; try assumption; try (apply bitfield_length); try (symmetry; exact EK); try apply zeros_length; try lia.
+          all: try (intros B; discriminate B). all: try exact Vs.
+        + rewrite !app_length, !le_enc_length, bitfield_length, LK, !zeros_length, Lsg. lia. }
+    destruct P as [P Hmin].
+    rewrite client_recv_framed by lia. exact P.
+  Qed.
+
+  (* unknown short id: the server answers with one zero byte; the client cannot even read a length *)
+  Lemma refusal_rejected minlen mykey skey gkey now :
+    client_recv verify minlen mykey skey gkey now sync_refusal = PErr ERead.
+  Proof. reflexivity. Qed.
+End AgreeView.
+
+(* ------------------------------------------------------------------ the two defects of the unrepaired code, in the model *)
 Definition d10_stream : bytes := le_enc 2 3 ++ [x01; x02; x03].
 Lemma d10_prefix_panics verify mykey skey gkey now :
   client_recv verify (v_minlen v_prefix) mykey skey gkey now d10_stream = PPanic.
@@ -23,3 +1314,97 @@ Lemma d9_fixed verify mykey :
   let '(st', r, _) := sync_round verify v_fixed mykey d9_state d9_att in
   r = RFalse /\ c_locked st' = false.
 Proof. vm_compute. split; reflexivity. Qed.
+
+(* ------------------------------------------------------------------ statements used by Props/C10, C11, C17 *)
+Section Statements.
+  Variable verify : bytes -> bytes -> bytes -> bool.
+
+  Lemma round_lock_released mykey st att st' r tr : c_locked st = false ->
+    sync_round verify v_fixed mykey st att = (st', r, tr) ->
+    r <> RBlocked /\ (r = RTrue \/ r = RFalse -> c_locked st' = false).
+  Proof.
+    intros L H. destruct (sync_round_spec verify v_fixed mykey st att st' r tr L H) as (A & _ & _ & B & _).
+    split; [exact A | exact (B eq_refl)].
+  Qed.
+  Lemma round_never_panics mykey st att st' r tr : c_locked st = false -> smap_wf (c_servers st) ->
+    sync_round verify v_fixed mykey st att = (st', r, tr) -> r <> RPanic /\ r <> RFuel.
+  Proof.
+    intros L W H. destruct (sync_round_spec verify v_fixed mykey st att st' r tr L H) as (_ & _ & _ & _ & _ & B).
+    exact (B eq_refl W).
+  Qed.
+  Lemma round_never_selects_banned ver mykey st att st' r tr : c_locked st = false ->
+    sync_round verify ver mykey st att = (st', r, tr) -> Forall (usable (c_servers st)) tr.
+  Proof. intros L H. exact (proj1 (proj2 (sync_round_spec verify ver mykey st att st' r tr L H))). Qed.
+  Lemma round_frame ver mykey st att st' r tr : c_locked st = false ->
+    sync_round verify ver mykey st att = (st', r, tr) -> r <> RTrue ->
+    identity st' = identity st /\ c_files st' = c_files st.
+  Proof. intros L H N. destruct (sync_round_spec verify ver mykey st att st' r tr L H) as (_ & _ & B & _). exact (B N). Qed.
+  Lemma round_accepts_only_checked mykey st att st' tr : c_locked st = false ->
+    sync_round verify v_fixed mykey st att = (st', RTrue, tr) ->
+    exists key now b rr, usable (c_servers st) key /\ accepted verify mykey key (c_gca st) now b rr.
+  Proof.
+    intros L H. destruct (sync_round_spec verify v_fixed mykey st att st' RTrue tr L H) as (_ & _ & _ & _ & B & _).
+    destruct (B eq_refl) as (st1 & rr & key & now & s & _ & _ & _ & U & CR & _).
+    apply client_recv_sound in CR as (l0 & l1 & rest & _ & _ & AC).
+    exists key, now, (firstn (Z.to_nat (le_dec [l0; l1])) rest), rr. split; [exact U | exact AC].
+  Qed.
+
+  Lemma restart_keeps_identity st ord st' : Inv st -> client_load (c_files st) ord = LdOk st' ->
+    identity st' = identity st /\ (c_primary st' = blank_key \/ usable (c_servers st') (c_primary st')).
+  Proof.
+    intros (_ & P & _) H. pose proof (client_load_spec _ _ _ H) as (_ & _ & _ & Pr). split; [|exact Pr].
+    destruct (c_servers st) as [|kv m] eqn:Es.
+    - rewrite (load_refuses_empty st ord P Es) in H. discriminate.
+    - destruct (load_of_persisted st ord P ltac:(congruence)) as (st3 & E3 & I3). congruence.
+  Qed.
+
+  Lemma persist_equals_adopt mykey st att st' ord : Inv st ->
+    cstep verify v_fixed mykey st (CSync att) = Some st' -> c_servers st' <> [] ->
+    exists st'', client_load (c_files st') ord = LdOk st'' /\ identity st'' = identity st'.
+  Proof.
+    intros I H NE. destruct (cstep_spec verify mykey st (CSync att) st' I H) as [(_ & P & _) _].
+    apply load_of_persisted; assumption.
+  Qed.
+
+  (* the reporting loop: after a round that returned, the next iteration is not blocked *)
+  Lemma loop_not_wedged mykey st att st' r tr ticks ok : c_locked st = false ->
+    sync_round verify v_fixed mykey st att = (st', r, tr) -> r = RTrue \/ r = RFalse ->
+    send_iter (c_locked st') ticks ok = Some (tick_step ticks ok).
+  Proof.
+    intros L H R. destruct (round_lock_released mykey st att st' r tr L H) as [_ B]. unfold send_iter. rewrite (B R). reflexivity.
+  Qed.
+End Statements.
+
+(* ------------------------------------------------------------------ recorded findings, in the model *)
+(* K7: a valid migration order with no new server is adopted and persisted; the client then refuses to start *)
+Definition k7_verify (k m s : bytes) : bool := true.
+Definition k7_mykey : bytes := repeat x01 32.
+Definition k7_srv : bytes := repeat x04 32.
+Definition k7_files : cfiles :=
+  {| f_gca := repeat x02 32; f_id := le_enc 4 5;
+     f_map := raw_of [(k7_srv, {| g_banned := false; g_loc := []; g_http := 1; g_tcp := 2; g_udp := 3 |})] |}.
+Definition k7_view : sview :=
+  {| sv_key := k7_mykey; sv_offset := 0; sv_powers := repeat 0 4032;
+     sv_mig := Some {| mg_equipment := k7_mykey; mg_newgca := repeat x03 32; mg_newid := 9; mg_servers := []; mg_sig := zeros 64 |};
+     sv_servers := []; sv_time := 100000 |}.
+Definition k7_att (i : nat) : attempt := ATry [k7_srv] (OClosed (sync_reply k7_view (zeros 64))) 100000.
+
+Lemma k7_empty_migration_bricks :
+  exists st st', client_load k7_files [k7_srv] = LdOk st /\
+    cstep k7_verify v_fixed k7_mykey st (CSync k7_att) = Some st' /\
+    c_gca st' = repeat x03 32 /\ c_servers st' = [] /\
+    forall ord, cstep k7_verify v_fixed k7_mykey st' (CRestart ord) = None.
+Proof.
+  eexists. eexists. split; [vm_compute; reflexivity|]. split; [vm_compute; reflexivity|].
+  split; [reflexivity|]. split; [reflexivity|]. intros ord. reflexivity.
+Qed.
+
+(* a banned entry's address is rewritten by a later ban record for the same key: the strict
+   reading "an entry changes only by becoming banned" does not hold for the client's merge *)
+Lemma merge_rewrites_banned_entry :
+  exists m s, ~ entry_le_strict m (merge_one m s).
+Proof.
+  exists [(k7_srv, {| g_banned := true; g_loc := []; g_http := 1; g_tcp := 2; g_udp := 3 |})].
+  exists {| as_key := k7_srv; as_banned := true; as_loc := [x01]; as_http := 7; as_tcp := 8; as_udp := 9; as_sig := [] |}.
+  intros H. destruct (H k7_srv _ eq_refl) as [g' [G [E|[E _]]]]; vm_compute in G; injection G as <-; discriminate.
+Qed.
